@@ -1,10 +1,4525 @@
-// STUB (replaced by the structured generator)
-pub struct GenCase { pub wgsl: String, pub features: Vec<&'static str> }
-pub const PROFILES: &[&str] = &["general"];
-pub fn generate(_profile: &str, _seed: u64, index: u64) -> GenCase {
-    GenCase { wgsl: format!("@group(0) @binding({index}) var<uniform> a: vec4<f32>;\n@compute @workgroup_size(1) fn main() {{ let x = a.x; }}\n"), features: vec![] }
+//! Seeded, structured random generator of valid WGSL shaders (naga 24.0.0 dialect)
+//! used for differential testing of `wgsl_to_wgpu`.
+//!
+//! * No global state, no I/O, no external crates: a splitmix64 PRNG seeded from a hash of
+//!   `(profile, seed, index)` drives every random choice.
+//! * Programs are valid by construction: the generator tracks types, layouts (WGSL size /
+//!   alignment rules incl. the uniform address-space constraints), shader-stage restrictions
+//!   of builtins, call-graph depth, IO location / builtin uniqueness, identifier uniqueness.
+//! * Only the profile `bindings` intentionally emits modules that may fail *validation*
+//!   (duplicate `(group, binding)` pairs used by the same entry point); they still parse.
+#![allow(clippy::all)]
+#![allow(dead_code)]
+
+use std::collections::BTreeSet;
+
+pub struct GenCase {
+    pub wgsl: String,
+    pub features: Vec<&'static str>,
 }
-pub fn chain(_d: usize, _v: bool) -> String { String::new() }
-pub fn diamond(_d: usize) -> String { String::new() }
-pub fn fanout(_d: usize) -> String { String::new() }
-pub fn nested_structs(_d: usize) -> String { String::new() }
+
+pub const PROFILES: &[&str] = &[
+    "general", "bindings", "callgraph", "structs", "vertex", "consts", "entries", "unicode",
+    "textures", "scale",
+];
+
+// ---------------------------------------------------------------------------------------------
+// PRNG
+// ---------------------------------------------------------------------------------------------
+
+struct Rng {
+    s: u64,
+}
+
+impl Rng {
+    fn new(profile: &str, seed: u64, index: u64) -> Rng {
+        // FNV-1a over the profile name, then mix seed and index through splitmix64 rounds.
+        let mut h: u64 = 0xcbf29ce484222325;
+        for b in profile.bytes() {
+            h ^= b as u64;
+            h = h.wrapping_mul(0x100000001b3);
+        }
+        let mut r = Rng { s: h };
+        let a = r.next_u64();
+        r.s = a ^ seed.wrapping_mul(0x9E3779B97F4A7C15);
+        let b = r.next_u64();
+        r.s = b ^ index.wrapping_mul(0xD1B54A32D192ED03);
+        r.next_u64();
+        r
+    }
+    fn next_u64(&mut self) -> u64 {
+        self.s = self.s.wrapping_add(0x9E3779B97F4A7C15);
+        let mut z = self.s;
+        z = (z ^ (z >> 30)).wrapping_mul(0xBF58476D1CE4E5B9);
+        z = (z ^ (z >> 27)).wrapping_mul(0x94D049BB133111EB);
+        z ^ (z >> 31)
+    }
+    fn below(&mut self, n: usize) -> usize {
+        if n == 0 {
+            0
+        } else {
+            (self.next_u64() % n as u64) as usize
+        }
+    }
+    /// inclusive range
+    fn range(&mut self, lo: usize, hi: usize) -> usize {
+        if hi <= lo {
+            lo
+        } else {
+            lo + self.below(hi - lo + 1)
+        }
+    }
+    fn pct(&mut self, p: u32) -> bool {
+        (self.next_u64() % 100) < p as u64
+    }
+    fn permille(&mut self, p: u32) -> bool {
+        (self.next_u64() % 1000) < p as u64
+    }
+    fn pick<'a, T>(&mut self, xs: &'a [T]) -> &'a T {
+        let i = self.below(xs.len());
+        &xs[i]
+    }
+    fn shuffle<T>(&mut self, xs: &mut [T]) {
+        let n = xs.len();
+        if n < 2 {
+            return;
+        }
+        for i in (1..n).rev() {
+            let j = self.below(i + 1);
+            xs.swap(i, j);
+        }
+    }
+    /// weighted choice; returns index
+    fn weighted(&mut self, w: &[u32]) -> usize {
+        let total: u32 = w.iter().sum();
+        if total == 0 {
+            return 0;
+        }
+        let mut x = (self.next_u64() % total as u64) as u32;
+        for (i, wi) in w.iter().enumerate() {
+            if x < *wi {
+                return i;
+            }
+            x -= *wi;
+        }
+        w.len() - 1
+    }
+}
+
+// ---------------------------------------------------------------------------------------------
+// Type model + WGSL layout rules
+// ---------------------------------------------------------------------------------------------
+
+#[derive(Clone, Copy, PartialEq, Eq, Debug)]
+enum Sc {
+    F32,
+    I32,
+    U32,
+    F64,
+    Bool,
+    U64,
+}
+
+impl Sc {
+    fn name(self) -> &'static str {
+        match self {
+            Sc::F32 => "f32",
+            Sc::I32 => "i32",
+            Sc::U32 => "u32",
+            Sc::F64 => "f64",
+            Sc::Bool => "bool",
+            Sc::U64 => "u64",
+        }
+    }
+    fn width(self) -> u32 {
+        match self {
+            Sc::F64 | Sc::U64 => 8,
+            Sc::Bool => 1,
+            _ => 4,
+        }
+    }
+}
+
+#[derive(Clone, PartialEq, Debug)]
+enum Ty {
+    Scalar(Sc),
+    Vec(u8, Sc),
+    /// columns, rows (f32)
+    Mat(u8, u8),
+    Atomic(Sc),
+    Array(Box<Ty>, u32),
+    RtArray(Box<Ty>),
+    Struct(usize),
+}
+
+#[derive(Clone, Debug)]
+struct Member {
+    name: String,
+    ty: Ty,
+    align: Option<u32>,
+    size: Option<u32>,
+    /// IO attribute text such as `@location(3) @interpolate(flat)` or `@builtin(position)`
+    io: Option<String>,
+}
+
+#[derive(Clone, Debug)]
+struct StructDef {
+    name: String,
+    members: Vec<Member>,
+}
+
+fn round_up(a: u32, x: u32) -> u32 {
+    if a == 0 {
+        x
+    } else {
+        (x + a - 1) / a * a
+    }
+}
+
+fn size_align(st: &[StructDef], ty: &Ty) -> (u32, u32) {
+    match ty {
+        Ty::Scalar(s) | Ty::Atomic(s) => (s.width(), s.width()),
+        Ty::Vec(n, s) => {
+            let w = s.width();
+            let n = *n as u32;
+            (n * w, if n == 2 { 2 * w } else { 4 * w })
+        }
+        Ty::Mat(c, r) => {
+            let (vs, va) = size_align(st, &Ty::Vec(*r, Sc::F32));
+            (round_up(va, vs) * *c as u32, va)
+        }
+        Ty::Array(b, n) => {
+            let (s, a) = size_align(st, b);
+            (round_up(a, s).saturating_mul(*n), a)
+        }
+        Ty::RtArray(b) => {
+            let (s, a) = size_align(st, b);
+            (round_up(a, s), a)
+        }
+        Ty::Struct(i) => {
+            let l = struct_layout(st, *i);
+            (l.size, l.align)
+        }
+    }
+}
+
+struct SLayout {
+    offsets: Vec<u32>,
+    size: u32,
+    align: u32,
+}
+
+fn struct_layout(st: &[StructDef], i: usize) -> SLayout {
+    // Mirrors naga 24: the WGSL front end computes member offsets and the struct span with
+    // `@align` / `@size` taken into account, but `naga::proc::Layouter` (which is consulted when
+    // the struct is nested in another struct / array) derives the struct *alignment* from the
+    // natural alignments of the member types only, ignoring `@align` attributes.
+    let mut off = 0u32;
+    let mut fe_align = 1u32;
+    let mut lay_align = 1u32;
+    let mut offsets = Vec::new();
+    for m in &st[i].members {
+        let (s, nat) = size_align(st, &m.ty);
+        let a = m.align.map(|x| x.max(nat)).unwrap_or(nat);
+        let s = m.size.map(|x| x.max(s)).unwrap_or(s);
+        off = round_up(a, off);
+        offsets.push(off);
+        off = off.saturating_add(s);
+        fe_align = fe_align.max(a);
+        lay_align = lay_align.max(nat);
+    }
+    SLayout { offsets, size: round_up(fe_align, off), align: lay_align }
+}
+
+/// naga's uniform-address-space layout rule; `Some(required alignment)` when the type may be
+/// placed in `var<uniform>`.
+fn uniform_align(st: &[StructDef], ty: &Ty) -> Option<u32> {
+    match ty {
+        Ty::Scalar(Sc::Bool) | Ty::Vec(_, Sc::Bool) => None,
+        Ty::Scalar(_) | Ty::Vec(..) | Ty::Mat(..) => Some(size_align(st, ty).1),
+        Ty::Atomic(_) | Ty::RtArray(_) => None,
+        Ty::Array(b, _) => {
+            let ua = uniform_align(st, b)?;
+            let (s, a) = size_align(st, b);
+            let al = ua.max(a).max(16);
+            if round_up(a, s) % al == 0 {
+                Some(al)
+            } else {
+                None
+            }
+        }
+        Ty::Struct(i) => {
+            let l = struct_layout(st, *i);
+            let mut cur = 16;
+            let mut prev: Option<(u32, u32)> = None;
+            for (m, off) in st[*i].members.iter().zip(l.offsets.iter()) {
+                let ua = uniform_align(st, &m.ty)?;
+                if off % ua != 0 {
+                    return None;
+                }
+                cur = cur.max(ua);
+                if let Some((span, po)) = prev {
+                    if off - po < round_up(16, span) {
+                        return None;
+                    }
+                }
+                prev = match &m.ty {
+                    Ty::Struct(j) => Some((struct_layout(st, *j).size, *off)),
+                    _ => None,
+                };
+            }
+            Some(cur)
+        }
+    }
+}
+
+#[derive(Clone, Copy, Default, Debug)]
+struct TFlags {
+    has_bool: bool,
+    has_atomic: bool,
+    has_rt: bool,
+    has_f64: bool,
+}
+
+fn ty_flags(st: &[StructDef], ty: &Ty) -> TFlags {
+    let mut f = TFlags::default();
+    match ty {
+        Ty::Scalar(s) | Ty::Vec(_, s) => {
+            f.has_bool = *s == Sc::Bool;
+            f.has_f64 = *s == Sc::F64;
+        }
+        Ty::Mat(..) => {}
+        Ty::Atomic(_) => f.has_atomic = true,
+        Ty::Array(b, _) => f = ty_flags(st, b),
+        Ty::RtArray(b) => {
+            f = ty_flags(st, b);
+            f.has_rt = true;
+        }
+        Ty::Struct(i) => {
+            for m in &st[*i].members {
+                let g = ty_flags(st, &m.ty);
+                f.has_bool |= g.has_bool;
+                f.has_atomic |= g.has_atomic;
+                f.has_rt |= g.has_rt;
+                f.has_f64 |= g.has_f64;
+            }
+        }
+    }
+    f
+}
+
+/// Requirements on generated data types depending on where the type will live.
+#[derive(Clone, Copy, Debug)]
+struct Req {
+    bool_ok: bool,
+    atomic_ok: bool,
+    f64_ok: bool,
+    uniform: bool,
+}
+
+impl Req {
+    const UNIFORM: Req = Req { bool_ok: false, atomic_ok: false, f64_ok: false, uniform: true };
+    const STORAGE_RO: Req = Req { bool_ok: false, atomic_ok: false, f64_ok: false, uniform: false };
+    const STORAGE_RW: Req = Req { bool_ok: false, atomic_ok: true, f64_ok: false, uniform: false };
+    const PRIVATE: Req = Req { bool_ok: true, atomic_ok: false, f64_ok: false, uniform: false };
+    const WORKGROUP: Req = Req { bool_ok: true, atomic_ok: true, f64_ok: false, uniform: false };
+}
+
+fn satisfies(st: &[StructDef], ty: &Ty, req: Req) -> bool {
+    let f = ty_flags(st, ty);
+    if f.has_bool && !req.bool_ok {
+        return false;
+    }
+    if f.has_atomic && !req.atomic_ok {
+        return false;
+    }
+    if f.has_f64 && !req.f64_ok {
+        return false;
+    }
+    if req.uniform && uniform_align(st, ty).is_none() {
+        return false;
+    }
+    true
+}
+
+fn ty_str(st: &[StructDef], ty: &Ty, short: bool) -> String {
+    match ty {
+        Ty::Scalar(s) => s.name().to_string(),
+        Ty::Vec(n, s) => {
+            if short && matches!(s, Sc::F32 | Sc::I32 | Sc::U32) {
+                let c = match s {
+                    Sc::F32 => 'f',
+                    Sc::I32 => 'i',
+                    _ => 'u',
+                };
+                format!("vec{}{}", n, c)
+            } else {
+                format!("vec{}<{}>", n, s.name())
+            }
+        }
+        Ty::Mat(c, r) => {
+            if short {
+                format!("mat{}x{}f", c, r)
+            } else {
+                format!("mat{}x{}<f32>", c, r)
+            }
+        }
+        Ty::Atomic(s) => format!("atomic<{}>", s.name()),
+        Ty::Array(b, n) => format!("array<{}, {}>", ty_str(st, b, short), n),
+        Ty::RtArray(b) => format!("array<{}>", ty_str(st, b, short)),
+        Ty::Struct(i) => st[*i].name.clone(),
+    }
+}
+
+/// `f32`-typed expression `v` converted to scalar kind `s`.
+fn conv_from_f32(s: Sc, v: &str) -> String {
+    // numeric literal: emit a literal of the right type (naga refuses `u32(4.0)` in const
+    // expressions: abstract floats do not convert to integers)
+    if v.chars().next().map(|c| c.is_ascii_digit()).unwrap_or(false) && v.chars().all(|c| c.is_ascii_digit() || c == '.') {
+        let int_part = v.split('.').next().unwrap_or("0");
+        let int_part = if int_part.is_empty() { "0" } else { int_part };
+        return match s {
+            Sc::F32 => v.to_string(),
+            Sc::F64 => format!("{}lf", if v.contains('.') { v.to_string() } else { format!("{}.0", v) }),
+            Sc::I32 => int_part.to_string(),
+            Sc::U32 => format!("{}u", int_part),
+            Sc::U64 => format!("{}lu", int_part),
+            Sc::Bool => "true".to_string(),
+        };
+    }
+    match s {
+        Sc::F32 => v.to_string(),
+        Sc::Bool => format!("({} > 0.5)", v),
+        other => format!("{}({})", other.name(), v),
+    }
+}
+
+/// expression `e` of scalar kind `s` converted to f32
+fn conv_to_f32(s: Sc, e: &str) -> String {
+    match s {
+        Sc::F32 => e.to_string(),
+        Sc::Bool => format!("select(0.0, 1.0, {})", e),
+        _ => format!("f32({})", e),
+    }
+}
+
+fn ind(n: usize) -> String {
+    "    ".repeat(n)
+}
+
+const COMPS: [&str; 4] = ["x", "y", "z", "w"];
+const COMPS_RGBA: [&str; 4] = ["r", "g", "b", "a"];
+
+// ---------------------------------------------------------------------------------------------
+// Vocabulary
+// ---------------------------------------------------------------------------------------------
+
+/// ASCII words that are neither WGSL keywords / reserved words nor predeclared type / builtin
+/// function names, and that never collide with the generator's local names
+/// (`acc`, `lvN`, `ixN`, `argN`, `vinN`, `finN`, `cinN`, `outv`, `biN`).
+const WORDS: &[&str] = &[
+    "color", "light", "pos", "nrm", "uv", "view", "proj", "model", "world", "time", "scale",
+    "offset", "idx", "count", "data", "buf", "tex", "smp", "params", "config", "camera",
+    "material", "bone", "weight", "tint", "depth", "shadow", "noise", "grid", "cell", "particle",
+    "velocity", "mass", "force", "frame", "delta", "alpha", "beta", "gamma", "radius", "extent",
+    "bounds", "flags", "key", "value", "item", "node", "edge", "src", "dst", "lhs", "rhs", "temp",
+    "state", "globals", "locals", "instance", "vertex_data", "tile", "cluster", "probe", "fog",
+    "sky", "sun", "ambient", "specular", "rough", "metal", "emissive", "occlusion", "joint",
+    "skin", "morph", "curve", "spline", "ray", "hit", "bvh", "voxel", "brick", "atlas", "glyph",
+    "rect", "quad", "tri", "mesh", "lod", "cull", "draw", "batch", "queue", "ring", "pool",
+    "slot", "page", "chunk", "span", "lane", "wave", "histogram", "prefix", "scan", "sort",
+];
+
+const LETTERS: &[&str] = &[
+    "a", "b", "c", "d", "e", "f", "g", "h", "k", "m", "n", "q", "r", "s", "t", "u", "v", "w", "x",
+    "y", "z",
+];
+
+/// Non-ASCII identifiers (XID_Start XID_Continue*), all accepted by naga's lexer.
+const UNI_WORDS: &[&str] = &[
+    "Δt", "données", "位置", "ñandú", "größe", "привет", "αβγ", "नमस्ते", "𝔘x", "éclair",
+    "x\u{301}y", "ﬁn", "색상", "مرحبا", "שלום", "ℂplx", "naïve", "Ångström", "façade", "übergroß",
+    "𠀀big", "ⅷx", "ꙮeye", "x·y", "été", "ラベル", "Ǆx", "ａｂｃ", "Ünïcödé", "变量", "πr2",
+    "λ", "θ_max", "ω0", "صورة", "ตัวแปร", "მონაცემები", "քանակ", "ᚠᚢᚦ", "e\u{301}\u{327}x",
+];
+
+const RUST_KW_NAMES: &[&str] = &["in", "dyn", "box"];
+
+const ENTRY_WORDS: &[&str] = &[
+    "main", "vs_main", "fs_main", "cs_main", "vert", "frag", "comp", "update", "render", "shade",
+    "simulate", "blit", "resolve_pass", "init_cells", "step_sim", "mainImage", "main_vs",
+    "main_fs", "main_cs", "VSMain", "PSMain", "CSMain", "kernel_0", "entry_a", "entry_b",
+];
+
+const STORAGE_FORMATS: &[(&str, Sc)] = &[
+    ("r8unorm", Sc::F32), ("r8snorm", Sc::F32), ("r8uint", Sc::U32), ("r8sint", Sc::I32),
+    ("r16unorm", Sc::F32), ("r16snorm", Sc::F32), ("r16uint", Sc::U32), ("r16sint", Sc::I32),
+    ("r16float", Sc::F32), ("rg8unorm", Sc::F32), ("rg8snorm", Sc::F32), ("rg8uint", Sc::U32),
+    ("rg8sint", Sc::I32), ("r32uint", Sc::U32), ("r32sint", Sc::I32), ("r32float", Sc::F32),
+    ("rg16unorm", Sc::F32), ("rg16snorm", Sc::F32), ("rg16uint", Sc::U32), ("rg16sint", Sc::I32),
+    ("rg16float", Sc::F32), ("rgba8unorm", Sc::F32), ("rgba8snorm", Sc::F32),
+    ("rgba8uint", Sc::U32), ("rgba8sint", Sc::I32), ("rgb10a2uint", Sc::U32),
+    ("rgb10a2unorm", Sc::F32), ("rg11b10float", Sc::F32), ("r64uint", Sc::U64),
+    ("rg32uint", Sc::U32), ("rg32sint", Sc::I32), ("rg32float", Sc::F32),
+    ("rgba16unorm", Sc::F32), ("rgba16snorm", Sc::F32), ("rgba16uint", Sc::U32),
+    ("rgba16sint", Sc::I32), ("rgba16float", Sc::F32), ("rgba32uint", Sc::U32),
+    ("rgba32sint", Sc::I32), ("rgba32float", Sc::F32), ("bgra8unorm", Sc::F32),
+];
+
+fn fmt_feature(fmt: &str) -> &'static str {
+    for (f, _) in STORAGE_FORMATS {
+        if *f == fmt {
+            return f;
+        }
+    }
+    "fmt_unknown"
+}
+
+// ---------------------------------------------------------------------------------------------
+// Module model
+// ---------------------------------------------------------------------------------------------
+
+const ST_V: u8 = 1;
+const ST_F: u8 = 2;
+const ST_C: u8 = 4;
+const ST_ALL: u8 = 7;
+
+#[derive(Clone, Copy, PartialEq, Eq, Debug)]
+enum Dim {
+    D1,
+    D2,
+    D2Array,
+    D3,
+    Cube,
+    CubeArray,
+}
+
+impl Dim {
+    fn suffix(self) -> &'static str {
+        match self {
+            Dim::D1 => "1d",
+            Dim::D2 => "2d",
+            Dim::D2Array => "2d_array",
+            Dim::D3 => "3d",
+            Dim::Cube => "cube",
+            Dim::CubeArray => "cube_array",
+        }
+    }
+    fn arrayed(self) -> bool {
+        matches!(self, Dim::D2Array | Dim::CubeArray)
+    }
+    fn cube(self) -> bool {
+        matches!(self, Dim::Cube | Dim::CubeArray)
+    }
+}
+
+#[derive(Clone, Debug)]
+enum Tex {
+    Sampled { dim: Dim, sc: Sc },
+    Multi { sc: Sc },
+    Depth { dim: Dim },
+    DepthMulti,
+    Storage { dim: Dim, fmt: &'static str, sc: Sc, access: &'static str },
+}
+
+impl Tex {
+    fn wgsl(&self) -> String {
+        match self {
+            Tex::Sampled { dim, sc } => format!("texture_{}<{}>", dim.suffix(), sc.name()),
+            Tex::Multi { sc } => format!("texture_multisampled_2d<{}>", sc.name()),
+            Tex::Depth { dim } => format!("texture_depth_{}", dim.suffix()),
+            Tex::DepthMulti => "texture_depth_multisampled_2d".to_string(),
+            Tex::Storage { dim, fmt, access, .. } => {
+                format!("texture_storage_{}<{}, {}>", dim.suffix(), fmt, access)
+            }
+        }
+    }
+}
+
+#[derive(Clone, Copy, PartialEq, Eq, Debug)]
+enum Space {
+    Uniform,
+    StorageRead,
+    StorageRW,
+}
+
+#[derive(Clone, Debug)]
+enum GKind {
+    Buffer { space: Space, ty: Ty },
+    Tex(Tex),
+    Sampler(bool),
+    Private { ty: Ty, init: Option<String> },
+    /// `len` = override-sized array length expression (type is then `array<elem, len>`)
+    Workgroup { ty: Ty, len: Option<String> },
+    PushConst { ty: Ty },
+}
+
+#[derive(Clone, Debug)]
+struct Global {
+    name: String,
+    kind: GKind,
+    group: u32,
+    binding: u32,
+    uses: u32,
+    /// intentionally never referenced from any function
+    no_use: bool,
+}
+
+#[derive(Clone, Debug)]
+struct Func {
+    name: String,
+    nparams: usize,
+    returns: bool,
+    mask: u8,
+    depth: usize,
+    text: String,
+}
+
+#[derive(Clone, Copy, PartialEq, Eq, Debug)]
+enum CKind {
+    AInt,
+    AFloat,
+    I32,
+    U32,
+    F32,
+    Bool,
+    F64,
+    Vec(u8, Sc),
+    Arr(u32, Sc),
+}
+
+#[derive(Clone, Debug)]
+struct ConstDef {
+    name: String,
+    text: String,
+    kind: CKind,
+    /// small value, safe to use in further constant arithmetic
+    small: Option<i64>,
+}
+
+#[derive(Clone, Debug)]
+struct OverrideDef {
+    name: String,
+    text: String,
+    sc: Sc,
+    has_default: bool,
+}
+
+#[derive(Clone, Debug)]
+enum Act {
+    Access(usize),
+    Call(usize),
+    Phony(usize),
+    Misc,
+}
+
+#[derive(Clone, Copy, PartialEq, Eq, Debug)]
+enum IoRole {
+    VIn,
+    VOut,
+    FIn,
+    FOut,
+    CIn,
+}
+
+#[derive(Clone, Debug)]
+struct IoInfo {
+    sidx: usize,
+    locs: Vec<u32>,
+    builtins: Vec<&'static str>,
+    role: IoRole,
+}
+
+struct Ctx {
+    mask: u8,
+    callable: Vec<usize>,
+    max_nest: usize,
+    nest_pct: u32,
+    called: Vec<usize>,
+    pos: Vec<&'static str>,
+    in_continuing: bool,
+    depth_cap: usize,
+}
+
+fn pos_tag(call: bool, pos: &str) -> &'static str {
+    match (call, pos) {
+        (true, "plain") => "call_in_plain",
+        (true, "if") => "call_in_if",
+        (true, "else") => "call_in_else",
+        (true, "case") => "call_in_switch_case",
+        (true, "default") => "call_in_switch_default",
+        (true, "loop") => "call_in_loop_body",
+        (true, "continuing") => "call_in_continuing",
+        (true, "for") => "call_in_for",
+        (true, "while") => "call_in_while",
+        (true, "block") => "call_in_block",
+        (false, "plain") => "access_in_plain",
+        (false, "if") => "access_in_if",
+        (false, "else") => "access_in_else",
+        (false, "case") => "access_in_switch_case",
+        (false, "default") => "access_in_switch_default",
+        (false, "loop") => "access_in_loop_body",
+        (false, "continuing") => "access_in_continuing",
+        (false, "for") => "access_in_for",
+        (false, "while") => "access_in_while",
+        (false, "block") => "access_in_block",
+        _ => "pos_other",
+    }
+}
+
+/// Per-profile knobs of the common builder.
+#[derive(Clone, Debug)]
+struct Cfg {
+    structs_extra: (usize, usize),
+    struct_depth: usize,
+    struct_members: (usize, usize),
+    buffers: (usize, usize),
+    textures: (usize, usize),
+    privates: (usize, usize),
+    workgroups: (usize, usize),
+    push_const_pct: u32,
+    helpers: (usize, usize),
+    call_depth_cap: usize,
+    acts: (usize, usize),
+    nest_pct: u32,
+    max_nest: usize,
+    vertex: (usize, usize),
+    fragment: (usize, usize),
+    compute: (usize, usize),
+    consts: (usize, usize),
+    overrides: (usize, usize),
+    max_groups: usize,
+    simple_buffers: bool,
+    vin_members: (usize, usize),
+    shapes: bool,
+    struct_roles: bool,
+    rust_kw_permille: u32,
+    case_clash_permille: u32,
+    f64_pct: u32,
+    /// probability (percent) that a random call targets one of the 3 most recent helpers
+    deep_bias: u32,
+    /// the module may have no entry point at all (only the `entries` profile)
+    allow_no_entry: bool,
+}
+
+impl Cfg {
+    fn base() -> Cfg {
+        Cfg {
+            structs_extra: (0, 2),
+            struct_depth: 2,
+            struct_members: (1, 6),
+            buffers: (1, 5),
+            textures: (0, 3),
+            privates: (0, 2),
+            workgroups: (0, 1),
+            push_const_pct: 12,
+            helpers: (0, 8),
+            call_depth_cap: 12,
+            acts: (1, 5),
+            nest_pct: 40,
+            max_nest: 3,
+            vertex: (0, 2),
+            fragment: (0, 2),
+            compute: (0, 2),
+            consts: (0, 4),
+            overrides: (0, 3),
+            max_groups: 4,
+            simple_buffers: false,
+            vin_members: (1, 5),
+            shapes: false,
+            struct_roles: false,
+            rust_kw_permille: 0,
+            case_clash_permille: 0,
+            f64_pct: 6,
+            deep_bias: 50,
+            allow_no_entry: false,
+        }
+    }
+}
+
+// ---------------------------------------------------------------------------------------------
+// Generator state
+// ---------------------------------------------------------------------------------------------
+
+struct Gen {
+    rng: Rng,
+    feats: BTreeSet<&'static str>,
+    mod_names: BTreeSet<String>,
+    unicode_pct: u32,
+    short_types: bool,
+    allow_f64: bool,
+    structs: Vec<StructDef>,
+    /// structs that must not be emitted (none currently) / emitted order handled in `assemble`
+    consts: Vec<ConstDef>,
+    overrides: Vec<OverrideDef>,
+    globals: Vec<Global>,
+    funcs: Vec<Func>,
+    entries: Vec<String>,
+    io: Vec<IoInfo>,
+    local_structs: Vec<usize>,
+    lv: usize,
+    used_ids: Vec<u32>,
+    entry_names: Vec<String>,
+    extra_items: Vec<String>,
+    callee_set: BTreeSet<usize>,
+    forced_vin: Option<usize>,
+    struct_roles: bool,
+    kw_budget: bool,
+    clash_budget: bool,
+}
+
+fn norm_name(s: &str) -> String {
+    s.to_lowercase().replace('_', "")
+}
+
+fn pascal(w: &str) -> String {
+    let mut out = String::new();
+    for part in w.split('_') {
+        let mut cs = part.chars();
+        if let Some(c) = cs.next() {
+            out.extend(c.to_uppercase());
+            out.push_str(cs.as_str());
+        }
+    }
+    out
+}
+
+impl Gen {
+    fn new(profile: &str, seed: u64, index: u64) -> Gen {
+        let mut g = Gen {
+            rng: Rng::new(profile, seed, index),
+            feats: BTreeSet::new(),
+            mod_names: BTreeSet::new(),
+            unicode_pct: 0,
+            short_types: false,
+            allow_f64: false,
+            structs: Vec::new(),
+            consts: Vec::new(),
+            overrides: Vec::new(),
+            globals: Vec::new(),
+            funcs: Vec::new(),
+            entries: Vec::new(),
+            io: Vec::new(),
+            local_structs: Vec::new(),
+            lv: 0,
+            used_ids: Vec::new(),
+            entry_names: Vec::new(),
+            extra_items: Vec::new(),
+            callee_set: BTreeSet::new(),
+            forced_vin: None,
+            struct_roles: false,
+            kw_budget: false,
+            clash_budget: false,
+        };
+        for n in ["acc", "outv", "whole"] {
+            g.mod_names.insert(n.to_string());
+        }
+        g
+    }
+
+    fn feat(&mut self, f: &'static str) {
+        self.feats.insert(f);
+    }
+
+    fn finish(self, wgsl: String) -> GenCase {
+        GenCase { wgsl, features: self.feats.into_iter().collect() }
+    }
+
+    // ---- names -------------------------------------------------------------------------------
+
+    /// style: 0 = variable / member / function, 1 = type (mostly PascalCase)
+    fn raw_name(&mut self, style: u8) -> String {
+        if self.rng.pct(self.unicode_pct) {
+            self.feat("unicode_ident");
+            let mut w = self.rng.pick(UNI_WORDS).to_string();
+            if self.rng.pct(30) {
+                w.push_str(&format!("{}", self.rng.below(10)));
+            }
+            if self.rng.pct(15) {
+                w.push('_');
+                let w2: &str = *self.rng.pick(WORDS); w.push_str(w2);
+            }
+            return w;
+        }
+        let w1 = self.rng.pick(WORDS).to_string();
+        let w2 = self.rng.pick(WORDS).to_string();
+        if style == 1 {
+            return match self.rng.below(6) {
+                0 | 1 => pascal(&w1),
+                2 | 3 => format!("{}{}", pascal(&w1), pascal(&w2)),
+                4 => format!("{}{}", pascal(&w1), self.rng.below(10)),
+                _ => format!("{}_{}", pascal(&w1), w2),
+            };
+        }
+        match self.rng.below(12) {
+            0..=3 => w1,
+            4 | 5 => format!("{}_{}", w1, w2),
+            6 => format!("{}{}", w1, self.rng.below(100)),
+            7 => format!("{}{}", w1, pascal(&w2)),
+            8 => format!("_{}", w1),
+            9 => format!("{}_", w1),
+            10 => format!("{}_{}_{}", w1, self.rng.below(10), w2),
+            _ => {
+                let l = self.rng.pick(LETTERS).to_string();
+                if self.rng.pct(40) {
+                    format!("{}{}", l, self.rng.below(10))
+                } else {
+                    l
+                }
+            }
+        }
+    }
+
+    fn fresh_in(&mut self, set: &mut BTreeSet<String>, style: u8) -> String {
+        for attempt in 0..60 {
+            let mut n = self.raw_name(style);
+            if attempt > 30 {
+                n.push_str(&format!("{}", self.rng.below(1000)));
+            }
+            if set.insert(norm_name(&n)) {
+                return n;
+            }
+        }
+        let mut k = set.len();
+        loop {
+            let n = format!("sym_{}", k);
+            if set.insert(norm_name(&n)) {
+                return n;
+            }
+            k += 1;
+        }
+    }
+
+    fn fresh(&mut self, style: u8) -> String {
+        let mut set = std::mem::take(&mut self.mod_names);
+        let n = self.fresh_in(&mut set, style);
+        self.mod_names = set;
+        n
+    }
+
+    /// Reserve a specific module-scope name; false if (case-insensitively) taken.
+    fn claim(&mut self, n: &str) -> bool {
+        self.mod_names.insert(norm_name(n))
+    }
+
+    fn local(&mut self, prefix: &str) -> String {
+        self.lv += 1;
+        format!("{}{}", prefix, self.lv)
+    }
+
+    fn ts(&self, ty: &Ty) -> String {
+        ty_str(&self.structs, ty, self.short_types)
+    }
+
+    // ---- literals ----------------------------------------------------------------------------
+
+    fn flit(&mut self) -> String {
+        const L: &[&str] = &["0.25", "0.5", "1.0", "1.5", "2.0", "3.0", "0.125", "4.0", "0.75"];
+        self.rng.pick(L).to_string()
+    }
+
+    // ---- data type generation ----------------------------------------------------------------
+
+    fn gen_scalar_kind(&mut self, req: Req) -> Sc {
+        let r = self.rng.below(100);
+        if req.bool_ok && r < 8 {
+            self.feat("member_bool");
+            return Sc::Bool;
+        }
+        if req.f64_ok && self.allow_f64 && r < 16 {
+            self.feat("f64");
+            return Sc::F64;
+        }
+        match self.rng.below(10) {
+            0..=4 => Sc::F32,
+            5 | 6 => Sc::I32,
+            _ => Sc::U32,
+        }
+    }
+
+    fn gen_leaf(&mut self, req: Req) -> Ty {
+        let w = [32, 36, 20, if req.atomic_ok { 16 } else { 0 }];
+        match self.rng.weighted(&w) {
+            0 => {
+                self.feat("member_scalar");
+                Ty::Scalar(self.gen_scalar_kind(req))
+            }
+            1 => {
+                self.feat("member_vec");
+                let n = self.rng.range(2, 4) as u8;
+                Ty::Vec(n, self.gen_scalar_kind(req))
+            }
+            2 => {
+                self.feat("member_mat");
+                Ty::Mat(self.rng.range(2, 4) as u8, self.rng.range(2, 4) as u8)
+            }
+            _ => {
+                self.feat("member_atomic");
+                Ty::Atomic(if self.rng.pct(60) { Sc::U32 } else { Sc::I32 })
+            }
+        }
+    }
+
+    fn gen_array_len(&mut self) -> u32 {
+        match self.rng.below(10) {
+            0..=5 => self.rng.range(1, 6) as u32,
+            6..=8 => self.rng.range(7, 20) as u32,
+            _ => self.rng.range(21, 40) as u32,
+        }
+    }
+
+    /// A sized data type satisfying `req`.
+    fn gen_member_ty(&mut self, req: Req, depth: usize, arr_depth: usize) -> Ty {
+        let w = [
+            60,
+            if arr_depth < 2 { 25 } else { 0 },
+            if depth > 0 { 15 } else { 0 },
+        ];
+        match self.rng.weighted(&w) {
+            0 => self.gen_leaf(req),
+            1 => {
+                let n = self.gen_array_len();
+                for _ in 0..8 {
+                    let elem = self.gen_member_ty(req, depth, arr_depth + 1);
+                    let arr = Ty::Array(Box::new(elem.clone()), n);
+                    if size_align(&self.structs, &arr).0 > (1 << 20) {
+                        continue;
+                    }
+                    if !req.uniform || uniform_align(&self.structs, &arr).is_some() {
+                        self.feat(if arr_depth > 0 || matches!(elem, Ty::Array(..)) {
+                            "member_nested_array"
+                        } else {
+                            "member_array"
+                        });
+                        if matches!(elem, Ty::Struct(_)) {
+                            self.feat("member_array_of_structs");
+                        }
+                        if matches!(elem, Ty::Mat(..)) {
+                            self.feat("member_array_of_mats");
+                        }
+                        return arr;
+                    }
+                }
+                self.feat("member_array");
+                Ty::Array(Box::new(Ty::Vec(4, Sc::F32)), n)
+            }
+            _ => {
+                self.feat("member_struct");
+                // reuse an existing compatible struct or build a new one
+                if self.rng.pct(45) {
+                    let mut cands = Vec::new();
+                    for i in 0..self.structs.len() {
+                        let t = Ty::Struct(i);
+                        let f = ty_flags(&self.structs, &t);
+                        let is_io = self.structs[i].members.iter().any(|m| m.io.is_some());
+                        if !f.has_rt && !is_io && satisfies(&self.structs, &t, req) {
+                            cands.push(i);
+                        }
+                    }
+                    if !cands.is_empty() {
+                        self.feat("struct_shared_nested");
+                        return Ty::Struct(*self.rng.pick(&cands));
+                    }
+                }
+                let lo = 1;
+                let hi = 4;
+                let i = self.gen_struct(req, depth - 1, (lo, hi), false);
+                Ty::Struct(i)
+            }
+        }
+    }
+
+    /// Generates a struct definition satisfying `req`; returns its index.
+    fn gen_struct(&mut self, req: Req, depth: usize, nmem: (usize, usize), rt_last: bool) -> usize {
+        let name = self.fresh(1);
+        let n = self.rng.range(nmem.0, nmem.1).max(1);
+        let mut mset: BTreeSet<String> = BTreeSet::new();
+        let mut members: Vec<Member> = Vec::new();
+        while members.len() < n {
+            if self.rng.pct(8) && members.len() + 2 <= n {
+                // vec3 immediately followed by a scalar (fits into the vec3 padding)
+                self.feat("vec3_scalar_pack");
+                let n1 = self.fresh_in(&mut mset, 0);
+                let n2 = self.fresh_in(&mut mset, 0);
+                let s = if self.rng.pct(60) { Sc::F32 } else { Sc::U32 };
+                members.push(Member { name: n1, ty: Ty::Vec(3, Sc::F32), align: None, size: None, io: None });
+                members.push(Member { name: n2, ty: Ty::Scalar(s), align: None, size: None, io: None });
+                continue;
+            }
+            let ty = self.gen_member_ty(req, depth, 0);
+            let mname = self.fresh_in(&mut mset, 0);
+            let (s, a) = size_align(&self.structs, &ty);
+            let f = ty_flags(&self.structs, &ty);
+            let mut align = None;
+            let mut size = None;
+            if !f.has_bool && !f.has_atomic {
+                if self.rng.pct(10) {
+                    let al = a << self.rng.range(0, 2);
+                    if al <= 256 {
+                        self.feat("attr_align");
+                        align = Some(al);
+                    }
+                }
+                if self.rng.pct(9) {
+                    self.feat("attr_size");
+                    size = Some(s + 4 * self.rng.range(0, 5) as u32);
+                }
+            }
+            members.push(Member { name: mname, ty, align, size, io: None });
+        }
+        if rt_last {
+            self.feat("member_rt_array");
+            let mut r = req;
+            r.uniform = false;
+            let elem = self.gen_member_ty(r, depth.min(1), 1);
+            let mname = self.fresh_in(&mut mset, 0);
+            members.push(Member { name: mname, ty: Ty::RtArray(Box::new(elem)), align: None, size: None, io: None });
+        }
+        if self.kw_budget && self.rng.pct(30) {
+            self.kw_budget = false;
+            // legal WGSL identifier that is a Rust keyword
+            let kw = *self.rng.pick(RUST_KW_NAMES);
+            if mset.insert(kw.to_string()) {
+                self.feat("rust_keyword_name");
+                let k = self.rng.below(members.len());
+                members[k].name = kw.to_string();
+            }
+        }
+        self.structs.push(StructDef { name, members });
+        let idx = self.structs.len() - 1;
+        if req.uniform {
+            self.uniformize(idx);
+        }
+        idx
+    }
+
+    /// Adds `@align(..)` attributes so that struct `i` satisfies the uniform layout rules.
+    fn uniformize(&mut self, i: usize) {
+        let n = self.structs[i].members.len();
+        for k in 0..n {
+            let l = struct_layout(&self.structs, i);
+            let off = l.offsets[k];
+            let mty = self.structs[i].members[k].ty.clone();
+            let ua = match uniform_align(&self.structs, &mty) {
+                Some(a) => a,
+                None => continue,
+            };
+            let mut need = 0;
+            if off % ua != 0 {
+                need = ua;
+            }
+            if k > 0 {
+                if let Ty::Struct(j) = self.structs[i].members[k - 1].ty {
+                    let span = struct_layout(&self.structs, j).size;
+                    if off - l.offsets[k - 1] < round_up(16, span) {
+                        need = need.max(16);
+                    }
+                }
+            }
+            if need > 0 {
+                let (_, a) = size_align(&self.structs, &mty);
+                let cur = self.structs[i].members[k].align.unwrap_or(0);
+                self.structs[i].members[k].align = Some(need.max(a).max(cur));
+                self.feat("uniform_align_fixup");
+            }
+        }
+    }
+
+    // ---- reading / writing leaves of a typed place -------------------------------------------
+
+    fn index_expr(&mut self, n: u32, dyn_ok: bool) -> String {
+        let k = self.rng.below(n as usize);
+        match self.rng.below(10) {
+            0..=5 => format!("{}", k),
+            6 | 7 => format!("{}u", k),
+            8 => format!("{}i", k),
+            _ => {
+                if dyn_ok {
+                    self.feat("dynamic_index");
+                    format!("u32(acc) % {}u", n)
+                } else {
+                    format!("{}", k)
+                }
+            }
+        }
+    }
+
+    /// An `f32` expression reading one leaf of `place: ty`.
+    fn read_f32(&mut self, ty: &Ty, place: &str, dyn_ok: bool) -> String {
+        match ty {
+            Ty::Scalar(s) => conv_to_f32(*s, place),
+            Ty::Vec(n, s) => {
+                let k = self.rng.below(*n as usize);
+                let e = match self.rng.below(6) {
+                    0 => format!("{}[{}]", place, k),
+                    1 => format!("{}.{}", place, COMPS_RGBA[k]),
+                    _ => format!("{}.{}", place, COMPS[k]),
+                };
+                conv_to_f32(*s, &e)
+            }
+            Ty::Mat(c, r) => {
+                let ci = self.rng.below(*c as usize);
+                let ri = self.rng.below(*r as usize);
+                if self.rng.pct(50) {
+                    format!("{}[{}][{}]", place, ci, ri)
+                } else {
+                    format!("{}[{}].{}", place, ci, COMPS[ri])
+                }
+            }
+            Ty::Atomic(_) => {
+                self.feat("atomic_load");
+                format!("f32(atomicLoad(&{}))", place)
+            }
+            Ty::Array(b, n) => {
+                let ix = self.index_expr(*n, dyn_ok);
+                let p = format!("{}[{}]", place, ix);
+                self.read_f32(b, &p, dyn_ok)
+            }
+            Ty::RtArray(b) => {
+                let ix = match self.rng.below(4) {
+                    0 => "0".to_string(),
+                    1 => format!("{}", self.rng.below(8)),
+                    2 => {
+                        self.feat("array_length");
+                        format!("arrayLength(&{}) - 1u", place)
+                    }
+                    _ => "u32(acc)".to_string(),
+                };
+                let p = format!("{}[{}]", place, ix);
+                self.read_f32(b, &p, dyn_ok)
+            }
+            Ty::Struct(i) => {
+                let k = self.rng.below(self.structs[*i].members.len());
+                let m = self.structs[*i].members[k].clone();
+                let p = format!("{}.{}", place, m.name);
+                self.read_f32(&m.ty, &p, dyn_ok)
+            }
+        }
+    }
+
+    /// A statement storing the f32 expression `val` into one leaf of `place: ty`.
+    fn write_leaf(&mut self, ty: &Ty, place: &str, val: &str) -> String {
+        match ty {
+            Ty::Scalar(s) => {
+                if *s == Sc::F32 && self.rng.pct(30) {
+                    format!("{} += {};", place, val)
+                } else {
+                    format!("{} = {};", place, conv_from_f32(*s, val))
+                }
+            }
+            Ty::Vec(n, s) => {
+                if self.rng.pct(60) {
+                    let k = self.rng.below(*n as usize);
+                    format!("{}.{} = {};", place, COMPS[k], conv_from_f32(*s, val))
+                } else {
+                    format!("{} = vec{}<{}>({});", place, n, s.name(), conv_from_f32(*s, val))
+                }
+            }
+            Ty::Mat(c, r) => {
+                let ci = self.rng.below(*c as usize);
+                if self.rng.pct(50) {
+                    format!("{}[{}] = vec{}<f32>({});", place, ci, r, val)
+                } else {
+                    let ri = self.rng.below(*r as usize);
+                    format!("{}[{}][{}] = {};", place, ci, ri, val)
+                }
+            }
+            Ty::Atomic(s) => {
+                let one = if *s == Sc::U32 { "1u" } else { "1" };
+                match self.rng.below(8) {
+                    0 => {
+                        self.feat("atomic_store");
+                        format!("atomicStore(&{}, {}({}));", place, s.name(), val)
+                    }
+                    1 => {
+                        self.feat("atomic_rmw");
+                        format!("acc += f32(atomicMax(&{}, {}));", place, one)
+                    }
+                    2 => {
+                        self.feat("atomic_rmw");
+                        format!("_ = atomicExchange(&{}, {});", place, one)
+                    }
+                    3 => {
+                        self.feat("atomic_cmpxchg");
+                        format!("if (atomicCompareExchangeWeak(&{}, {}, {}).exchanged) {{ acc += 1.0; }}", place, one, one)
+                    }
+                    4 => {
+                        self.feat("atomic_rmw");
+                        format!("atomicSub(&{}, {});", place, one)
+                    }
+                    _ => {
+                        self.feat("atomic_add");
+                        if self.rng.pct(50) {
+                            format!("atomicAdd(&{}, {});", place, one)
+                        } else {
+                            format!("acc += f32(atomicAdd(&{}, {}));", place, one)
+                        }
+                    }
+                }
+            }
+            Ty::Array(b, n) => {
+                let ix = self.index_expr(*n, true);
+                let p = format!("{}[{}]", place, ix);
+                self.write_leaf(b, &p, val)
+            }
+            Ty::RtArray(b) => {
+                let ix = match self.rng.below(3) {
+                    0 => "0".to_string(),
+                    1 => format!("{}u", self.rng.below(8)),
+                    _ => "u32(acc)".to_string(),
+                };
+                let p = format!("{}[{}]", place, ix);
+                self.write_leaf(b, &p, val)
+            }
+            Ty::Struct(i) => {
+                let k = self.rng.below(self.structs[*i].members.len());
+                let m = self.structs[*i].members[k].clone();
+                let p = format!("{}.{}", place, m.name);
+                self.write_leaf(&m.ty, &p, val)
+            }
+        }
+    }
+
+    /// Place expression of a runtime-sized array inside `place: ty`, if there is one.
+    fn rt_place(&self, ty: &Ty, place: &str) -> Option<String> {
+        match ty {
+            Ty::RtArray(_) => Some(place.to_string()),
+            Ty::Struct(i) => {
+                let m = self.structs[*i].members.last()?;
+                if matches!(m.ty, Ty::RtArray(_)) {
+                    Some(format!("{}.{}", place, m.name))
+                } else {
+                    None
+                }
+            }
+            _ => None,
+        }
+    }
+
+    /// Value of type `ty` built from the f32 expression `v` (constructible types only).
+    fn splat(&self, ty: &Ty, v: &str) -> String {
+        match ty {
+            Ty::Scalar(s) => conv_from_f32(*s, v),
+            Ty::Vec(n, s) => format!("vec{}<{}>({})", n, s.name(), conv_from_f32(*s, v)),
+            Ty::Mat(c, r) => {
+                let col = format!("vec{}<f32>({})", r, v);
+                let cols: Vec<String> = (0..*c).map(|_| col.clone()).collect();
+                format!("mat{}x{}<f32>({})", c, r, cols.join(", "))
+            }
+            Ty::Array(b, n) => {
+                let e = self.splat(b, v);
+                let es: Vec<String> = (0..*n).map(|_| e.clone()).collect();
+                format!("{}({})", self.ts(ty), es.join(", "))
+            }
+            Ty::Struct(i) => {
+                let ms: Vec<String> =
+                    self.structs[*i].members.iter().map(|m| self.splat(&m.ty, v)).collect();
+                format!("{}({})", self.structs[*i].name, ms.join(", "))
+            }
+            _ => "0".to_string(),
+        }
+    }
+}
+
+// ---------------------------------------------------------------------------------------------
+// Statements: accesses to globals
+// ---------------------------------------------------------------------------------------------
+
+fn tex_feature(t: &Tex) -> &'static str {
+    match t {
+        Tex::Sampled { dim, .. } => match dim {
+            Dim::D1 => "texture_1d",
+            Dim::D2 => "texture_2d",
+            Dim::D2Array => "texture_2d_array",
+            Dim::D3 => "texture_3d",
+            Dim::Cube => "texture_cube",
+            Dim::CubeArray => "texture_cube_array",
+        },
+        Tex::Multi { .. } => "texture_multisampled_2d",
+        Tex::Depth { dim } => match dim {
+            Dim::D2 => "texture_depth_2d",
+            Dim::D2Array => "texture_depth_2d_array",
+            Dim::Cube => "texture_depth_cube",
+            _ => "texture_depth_cube_array",
+        },
+        Tex::DepthMulti => "texture_depth_multisampled_2d",
+        Tex::Storage { dim, .. } => match dim {
+            Dim::D1 => "texture_storage_1d",
+            Dim::D2 => "texture_storage_2d",
+            Dim::D2Array => "texture_storage_2d_array",
+            _ => "texture_storage_3d",
+        },
+    }
+}
+
+impl Gen {
+    fn find_sampler(&mut self, comparison: bool) -> Option<String> {
+        let mut c = Vec::new();
+        for (i, g) in self.globals.iter().enumerate() {
+            if let GKind::Sampler(cmp) = g.kind {
+                if cmp == comparison && !g.no_use {
+                    c.push(i);
+                }
+            }
+        }
+        if c.is_empty() {
+            return None;
+        }
+        let i = *self.rng.pick(&c);
+        self.globals[i].uses += 1;
+        Some(self.globals[i].name.clone())
+    }
+
+    fn fcoord(&mut self, dim: Dim) -> String {
+        let a = self.flit();
+        let b = self.flit();
+        match dim {
+            Dim::D1 => {
+                if self.rng.pct(50) {
+                    "acc".to_string()
+                } else {
+                    a
+                }
+            }
+            Dim::D2 | Dim::D2Array => format!("vec2<f32>(acc, {})", a),
+            _ => format!("vec3<f32>(acc, {}, {})", a, b),
+        }
+    }
+
+    fn icoord(&mut self, dim: Dim) -> String {
+        let unsigned = self.rng.pct(35);
+        if unsigned {
+            self.feat("tex_coords_u32");
+        }
+        let (t, c, one) = if unsigned { ("u32", "u32(acc)", "1u") } else { ("i32", "i32(acc)", "1") };
+        match dim {
+            Dim::D1 => match self.rng.below(3) {
+                0 => one.to_string(),
+                _ => c.to_string(),
+            },
+            Dim::D3 => format!("vec3<{}>({}, {}, {})", t, c, one, one),
+            _ => format!("vec2<{}>({}, {})", t, c, one),
+        }
+    }
+
+    fn layer(&mut self) -> String {
+        self.rng.pick(&["0", "1", "1u", "i32(acc)", "u32(acc)"]).to_string()
+    }
+
+    fn level_i32(&mut self) -> String {
+        self.rng.pick(&["0", "1", "i32(acc)"]).to_string()
+    }
+
+    fn comp(&mut self) -> &'static str {
+        COMPS[self.rng.below(4)]
+    }
+
+    fn access_data(&mut self, name: &str, ty: &Ty, writable: bool) -> Vec<String> {
+        let f = ty_flags(&self.structs, ty);
+        let rt = self.rt_place(ty, name);
+        if writable && self.rng.pct(40) {
+            self.feat("store");
+            let v = if self.rng.pct(70) { "acc".to_string() } else { format!("acc * {}", self.flit()) };
+            return vec![self.write_leaf(ty, name, &v)];
+        }
+        if let Some(p) = &rt {
+            if self.rng.pct(30) {
+                self.feat("array_length");
+                return vec![format!("acc += f32(arrayLength(&{}));", p)];
+            }
+        }
+        if !f.has_rt && !f.has_atomic && self.rng.pct(6) && size_align(&self.structs, ty).0 <= 4096 {
+            self.feat("whole_load");
+            let l = self.local("lv");
+            let r = self.read_f32(ty, &l, false);
+            return vec![format!("let {} = {};", l, name), format!("acc += {};", r)];
+        }
+        self.feat("load");
+        let r = self.read_f32(ty, name, true);
+        match self.rng.below(5) {
+            0 => {
+                let l = self.local("lv");
+                vec![format!("let {} = {};", l, r), format!("acc += {};", l)]
+            }
+            1 => vec![format!("acc = acc * {} + {};", self.flit(), r)],
+            2 => {
+                let r2 = self.read_f32(ty, name, true);
+                vec![format!("acc += {} * {};", r, r2)]
+            }
+            _ => vec![format!("acc += {};", r)],
+        }
+    }
+
+    fn access_tex(&mut self, ctx: &mut Ctx, name: &str, t: &Tex) -> Vec<String> {
+        self.feat(tex_feature(t));
+        let frag = ctx.mask == ST_F;
+        let s_plain = self.find_sampler(false);
+        let s_cmp = self.find_sampler(true);
+        // (op id) candidates
+        let mut ops: Vec<&'static str> = vec!["textureDimensions"];
+        match t {
+            Tex::Sampled { dim, sc } => {
+                self.feat(match sc {
+                    Sc::F32 => "sampled_f32",
+                    Sc::I32 => "sampled_i32",
+                    _ => "sampled_u32",
+                });
+                ops.push("textureNumLevels");
+                if dim.arrayed() {
+                    ops.push("textureNumLayers");
+                }
+                if !dim.cube() {
+                    ops.push("textureLoad");
+                    ops.push("textureLoad");
+                }
+                if s_plain.is_some() {
+                    if *sc == Sc::F32 {
+                        ops.push("textureSampleLevel");
+                        ops.push("textureSampleLevel");
+                        if *dim != Dim::D1 {
+                            ops.push("textureSampleGrad");
+                        }
+                        if frag {
+                            for _ in 0..8 {
+                                ops.push("textureSample");
+                            }
+                            if *dim != Dim::D1 {
+                                ops.push("textureSampleBias");
+                                ops.push("textureSampleBias");
+                            }
+                        }
+                    }
+                    if matches!(dim, Dim::D2 | Dim::D2Array | Dim::Cube | Dim::CubeArray) {
+                        ops.push("textureGather");
+                    }
+                }
+            }
+            Tex::Multi { .. } | Tex::DepthMulti => {
+                ops.push("textureNumSamples");
+                ops.push("textureLoad");
+                ops.push("textureLoad");
+            }
+            Tex::Depth { dim } => {
+                ops.push("textureNumLevels");
+                if dim.arrayed() {
+                    ops.push("textureNumLayers");
+                }
+                if !dim.cube() {
+                    ops.push("textureLoad");
+                }
+                if s_plain.is_some() {
+                    ops.push("textureSampleLevel");
+                    ops.push("textureGather");
+                    if frag {
+                        ops.push("textureSample");
+                    }
+                }
+                if s_cmp.is_some() {
+                    ops.push("textureSampleCompareLevel");
+                    ops.push("textureSampleCompareLevel");
+                    ops.push("textureGatherCompare");
+                    if frag {
+                        for _ in 0..5 {
+                            ops.push("textureSampleCompare");
+                        }
+                    }
+                }
+            }
+            Tex::Storage { dim, access, .. } => {
+                if *dim == Dim::D2Array {
+                    ops.push("textureNumLayers");
+                }
+                if *access != "write" {
+                    for _ in 0..3 {
+                        ops.push("textureLoad");
+                    }
+                }
+                if *access != "read" {
+                    for _ in 0..3 {
+                        ops.push("textureStore");
+                    }
+                }
+                if *access == "atomic" {
+                    for _ in 0..4 {
+                        ops.push("textureAtomic");
+                    }
+                }
+            }
+        }
+        let op = *self.rng.pick(&ops);
+        self.feat(op);
+        let (dim, sc) = match t {
+            Tex::Sampled { dim, sc } => (*dim, *sc),
+            Tex::Multi { sc } => (Dim::D2, *sc),
+            Tex::Depth { dim } => (*dim, Sc::F32),
+            Tex::DepthMulti => (Dim::D2, Sc::F32),
+            Tex::Storage { dim, sc, .. } => (*dim, *sc),
+        };
+        let is_depth = matches!(t, Tex::Depth { .. } | Tex::DepthMulti);
+        let lay = if dim.arrayed() { format!(", {}", self.layer()) } else { String::new() };
+        let sp = s_plain.unwrap_or_default();
+        let sc_ = s_cmp.unwrap_or_default();
+        let c = self.comp();
+        // wrap a vec4<sc> expression / a scalar f32 expression into `acc += ...`
+        let vec_res = |e: String| -> String {
+            if is_depth {
+                format!("acc += {};", e)
+            } else {
+                format!("acc += {};", conv_to_f32(sc, &format!("{}.{}", e, c)))
+            }
+        };
+        match op {
+            "textureDimensions" => {
+                let lvl = if matches!(t, Tex::Sampled { .. } | Tex::Depth { .. }) && self.rng.pct(30) {
+                    format!(", {}", self.rng.pick(&["0", "1", "0u", "i32(acc)"]))
+                } else {
+                    String::new()
+                };
+                let e = format!("textureDimensions({}{})", name, lvl);
+                if dim == Dim::D1 {
+                    vec![format!("acc += f32({});", e)]
+                } else {
+                    vec![format!("acc += f32({}.{});", e, if self.rng.pct(50) { "x" } else { "y" })]
+                }
+            }
+            "textureNumLevels" | "textureNumLayers" | "textureNumSamples" => {
+                vec![format!("acc += f32({}({}));", op, name)]
+            }
+            "textureLoad" => {
+                let ic = self.icoord(dim);
+                let e = match t {
+                    Tex::Storage { .. } => format!("textureLoad({}, {}{})", name, ic, lay),
+                    _ => format!("textureLoad({}, {}{}, {})", name, ic, lay, self.level_i32()),
+                };
+                if matches!(t, Tex::Multi { .. } | Tex::DepthMulti) {
+                    self.feat("textureLoad_multisampled");
+                }
+                if matches!(t, Tex::Sampled { sc: Sc::I32 | Sc::U32, .. }) {
+                    self.feat("textureLoad_integer");
+                }
+                vec![vec_res(e)]
+            }
+            "textureStore" => {
+                let ic = self.icoord(dim);
+                let v = format!("vec4<{}>({})", sc.name(), conv_from_f32(sc, "acc"));
+                vec![format!("textureStore({}, {}{}, {});", name, ic, lay, v)]
+            }
+            "textureAtomic" => {
+                self.feat("storage_atomic_op");
+                let ic = self.icoord(dim);
+                let (fns, one): (&[&str], &str) = match sc {
+                    Sc::U64 => (&["textureAtomicMin", "textureAtomicMax"], "1lu"),
+                    Sc::I32 => (
+                        &["textureAtomicAdd", "textureAtomicMin", "textureAtomicMax", "textureAtomicAnd", "textureAtomicOr", "textureAtomicXor"],
+                        "1",
+                    ),
+                    _ => (
+                        &["textureAtomicAdd", "textureAtomicMin", "textureAtomicMax", "textureAtomicAnd", "textureAtomicOr", "textureAtomicXor"],
+                        "1u",
+                    ),
+                };
+                let f = *self.rng.pick(fns);
+                vec![format!("{}({}, {}{}, {});", f, name, ic, lay, one)]
+            }
+            "textureSample" => {
+                let fc = self.fcoord(dim);
+                let off = if dim == Dim::D2 && !is_depth && self.rng.pct(35) {
+                    self.feat("texture_offset");
+                    ", vec2<i32>(1, -1)".to_string()
+                } else {
+                    String::new()
+                };
+                vec![vec_res(format!("textureSample({}, {}, {}{}{})", name, sp, fc, lay, off))]
+            }
+            "textureSampleBias" => {
+                let fc = self.fcoord(dim);
+                vec![vec_res(format!("textureSampleBias({}, {}, {}{}, {})", name, sp, fc, lay, self.flit()))]
+            }
+            "textureSampleLevel" => {
+                let fc = self.fcoord(dim);
+                let lvl = if is_depth { self.level_i32() } else { self.rng.pick(&["0.0", "1.0", "acc"]).to_string() };
+                vec![vec_res(format!("textureSampleLevel({}, {}, {}{}, {})", name, sp, fc, lay, lvl))]
+            }
+            "textureSampleGrad" => {
+                let fc = self.fcoord(dim);
+                let g = match dim {
+                    Dim::D2 | Dim::D2Array => "vec2<f32>(0.5)",
+                    _ => "vec3<f32>(0.5)",
+                };
+                vec![vec_res(format!("textureSampleGrad({}, {}, {}{}, {}, {})", name, sp, fc, lay, g, g))]
+            }
+            "textureGather" => {
+                let fc = self.fcoord(dim);
+                if is_depth {
+                    vec![format!("acc += textureGather({}, {}, {}{}).{};", name, sp, fc, lay, c)]
+                } else {
+                    let k = self.rng.below(4);
+                    vec![vec_res(format!("textureGather({}, {}, {}, {}{})", k, name, sp, fc, lay))]
+                }
+            }
+            "textureGatherCompare" => {
+                let fc = self.fcoord(dim);
+                vec![format!("acc += textureGatherCompare({}, {}, {}{}, {}).{};", name, sc_, fc, lay, self.flit(), c)]
+            }
+            "textureSampleCompare" | "textureSampleCompareLevel" => {
+                let fc = self.fcoord(dim);
+                vec![format!("acc += {}({}, {}, {}{}, {});", op, name, sc_, fc, lay, self.flit())]
+            }
+            _ => vec![format!("_ = {};", name)],
+        }
+    }
+
+    fn access(&mut self, ctx: &mut Ctx, g: usize) -> Vec<String> {
+        self.globals[g].uses += 1;
+        let name = self.globals[g].name.clone();
+        let pos = *ctx.pos.last().unwrap_or(&"plain");
+        self.feat(pos_tag(false, pos));
+        match self.globals[g].kind.clone() {
+            GKind::Buffer { space, ty } => {
+                self.feat(match space {
+                    Space::Uniform => "use_uniform",
+                    Space::StorageRead => "use_storage_read",
+                    Space::StorageRW => "use_storage_rw",
+                });
+                self.access_data(&name, &ty, space == Space::StorageRW)
+            }
+            GKind::Private { ty, .. } => {
+                self.feat("use_private");
+                self.access_data(&name, &ty, true)
+            }
+            GKind::Workgroup { ty, .. } => {
+                self.feat("use_workgroup");
+                self.access_data(&name, &ty, true)
+            }
+            GKind::PushConst { ty } => {
+                self.feat("use_push_constant");
+                self.access_data(&name, &ty, false)
+            }
+            GKind::Tex(t) => self.access_tex(ctx, &name, &t),
+            GKind::Sampler(_) => {
+                self.feat("phony_use");
+                vec![format!("_ = {};", name)]
+            }
+        }
+    }
+
+    fn phony(&mut self, g: usize) -> Vec<String> {
+        self.globals[g].uses += 1;
+        self.feat("phony_use");
+        let name = self.globals[g].name.clone();
+        match &self.globals[g].kind {
+            GKind::Tex(_) | GKind::Sampler(_) => vec![format!("_ = {};", name)],
+            GKind::Buffer { ty, .. } | GKind::Private { ty, .. } | GKind::Workgroup { ty, .. } | GKind::PushConst { ty } => {
+                let f = ty_flags(&self.structs, ty);
+                if f.has_rt || f.has_atomic || self.rng.pct(50) {
+                    let l = self.local("lv");
+                    vec![format!("let {} = &{};", l, name)]
+                } else {
+                    vec![format!("_ = {};", name)]
+                }
+            }
+        }
+    }
+
+    // -----------------------------------------------------------------------------------------
+    // Calls
+    // -----------------------------------------------------------------------------------------
+
+    fn returning(&self, ctx: &Ctx, min_params: usize) -> Vec<usize> {
+        ctx.callable
+            .iter()
+            .copied()
+            .filter(|&f| self.funcs[f].returns && self.funcs[f].nparams >= min_params)
+            .collect()
+    }
+
+    fn call_expr(&mut self, ctx: &mut Ctx, f: usize, nested_ok: bool) -> String {
+        ctx.called.push(f);
+        let n = self.funcs[f].nparams;
+        let name = self.funcs[f].name.clone();
+        let mut args = Vec::new();
+        for _ in 0..n {
+            let r = self.returning(ctx, 0);
+            if nested_ok && !r.is_empty() && self.rng.pct(15) {
+                self.feat("call_as_arg");
+                let g = *self.rng.pick(&r);
+                args.push(self.call_expr(ctx, g, false));
+            } else {
+                args.push(match self.rng.below(4) {
+                    0 => self.flit(),
+                    1 => format!("acc * {}", self.flit()),
+                    _ => "acc".to_string(),
+                });
+            }
+        }
+        format!("{}({})", name, args.join(", "))
+    }
+
+    fn cond(&mut self, ctx: &mut Ctx) -> String {
+        let op = *self.rng.pick(&["<", ">", "<=", ">=", "!="]);
+        let lit = self.flit();
+        let r = self.returning(ctx, 0);
+        if !r.is_empty() && !ctx.in_continuing && self.rng.pct(18) {
+            self.feat("call_in_condition");
+            let f = *self.rng.pick(&r);
+            let c = self.call_expr(ctx, f, true);
+            return format!("{} {} {}", c, op, lit);
+        }
+        format!("acc {} {}", op, lit)
+    }
+
+    fn render_call(&mut self, ctx: &mut Ctx, f: usize) -> Vec<String> {
+        let pos = *ctx.pos.last().unwrap_or(&"plain");
+        self.feat(pos_tag(true, pos));
+        if !self.funcs[f].returns {
+            self.feat("call_void_stmt");
+            let c = self.call_expr(ctx, f, true);
+            return vec![format!("{};", c)];
+        }
+        let c = self.call_expr(ctx, f, true);
+        match self.rng.below(10) {
+            0 | 1 => {
+                self.feat("call_in_expr");
+                vec![format!("acc += {};", c)]
+            }
+            2 => {
+                self.feat("call_let");
+                let l = self.local("lv");
+                vec![format!("let {} = {};", l, c), format!("acc = acc + {};", l)]
+            }
+            3 => {
+                self.feat("call_in_expr_multi");
+                let r = self.returning(ctx, 0);
+                let g = *self.rng.pick(&r);
+                let c2 = self.call_expr(ctx, g, true);
+                let l = self.local("lv");
+                vec![format!("let {} = {} + {} * {};", l, self.flit(), c, c2), format!("acc += {};", l)]
+            }
+            4 => {
+                self.feat("call_discard_phony");
+                vec![format!("_ = {};", c)]
+            }
+            5 => {
+                self.feat("call_value_as_stmt");
+                vec![format!("{};", c)]
+            }
+            6 => {
+                let hs = self.returning(ctx, 1);
+                if hs.is_empty() {
+                    self.feat("call_in_expr");
+                    vec![format!("acc = acc * {} + {};", self.flit(), c)]
+                } else {
+                    self.feat("call_as_arg");
+                    let h = *self.rng.pick(&hs);
+                    ctx.called.push(h);
+                    let hn = self.funcs[h].name.clone();
+                    let mut args = vec![c];
+                    for _ in 1..self.funcs[h].nparams {
+                        args.push("acc".to_string());
+                    }
+                    vec![format!("acc = {}({});", hn, args.join(", "))]
+                }
+            }
+            7 => {
+                self.feat("call_var_init");
+                let l = self.local("lv");
+                vec![format!("var {}: f32 = {};", l, c), format!("{} += 1.0;", l), format!("acc = {};", l)]
+            }
+            8 => {
+                self.feat("call_in_condition");
+                vec![format!("if ({} > acc) {{ acc = acc + 1.0; }}", c)]
+            }
+            _ => {
+                self.feat("call_in_expr");
+                vec![format!("acc = max(acc, {}) - {};", c, self.flit())]
+            }
+        }
+    }
+
+    // -----------------------------------------------------------------------------------------
+    // Misc statements
+    // -----------------------------------------------------------------------------------------
+
+    fn const_use(&mut self) -> Option<String> {
+        if self.consts.is_empty() {
+            return None;
+        }
+        let k = self.rng.below(self.consts.len());
+        let c = self.consts[k].clone();
+        self.feat("const_used");
+        Some(match c.kind {
+            CKind::AInt | CKind::I32 | CKind::U32 => format!("f32({})", c.name),
+            // naga's constant evaluator cannot cast an f64 literal to f32: keep it a runtime cast
+            CKind::F64 => format!("f32({} + f64(acc))", c.name),
+            CKind::AFloat | CKind::F32 => c.name.clone(),
+            CKind::Bool => format!("select(0.0, 1.0, {})", c.name),
+            CKind::Vec(n, s) => {
+                let i = self.rng.below(n as usize);
+                conv_to_f32(s, &format!("{}.{}", c.name, COMPS[i]))
+            }
+            CKind::Arr(n, s) => {
+                let i = self.rng.below(n as usize);
+                conv_to_f32(s, &format!("{}[{}]", c.name, i))
+            }
+        })
+    }
+
+    fn override_use(&mut self) -> Option<String> {
+        if self.overrides.is_empty() {
+            return None;
+        }
+        let k = self.rng.below(self.overrides.len());
+        let o = self.overrides[k].clone();
+        self.feat("override_used");
+        Some(conv_to_f32(o.sc, &o.name))
+    }
+
+    fn misc(&mut self) -> Vec<String> {
+        match self.rng.below(9) {
+            0 => {
+                if let Some(e) = self.const_use() {
+                    return vec![format!("acc += {};", e)];
+                }
+                vec![format!("acc = acc * {} + {};", self.flit(), self.flit())]
+            }
+            1 => {
+                if let Some(e) = self.override_use() {
+                    return vec![format!("acc += {};", e)];
+                }
+                vec![format!("acc = acc - {};", self.flit())]
+            }
+            2 => {
+                let f = *self.rng.pick(&["sin", "cos", "abs", "floor", "fract", "sqrt", "exp2", "saturate"]);
+                vec![format!("acc = {}(acc);", f)]
+            }
+            3 => vec![format!("acc = clamp(acc, 0.0, {});", self.flit())],
+            4 => {
+                let l = self.local("lv");
+                vec![format!("var {}: f32 = acc;", l), format!("{} *= {};", l, self.flit()), format!("acc = {};", l)]
+            }
+            5 => {
+                self.feat("local_pointer");
+                let l = self.local("lv");
+                vec![format!("let {} = &acc;", l), format!("*{} += {};", l, self.flit())]
+            }
+            6 if !self.local_structs.is_empty() => {
+                self.feat("struct_function_local");
+                let s = *self.rng.pick(&self.local_structs.clone());
+                let ty = Ty::Struct(s);
+                let l = self.local("lv");
+                let decl = if self.rng.pct(50) && size_align(&self.structs, &ty).0 <= 256 {
+                    format!("var {} = {};", l, self.splat(&ty, "acc"))
+                } else {
+                    format!("var {}: {};", l, self.structs[s].name)
+                };
+                let w = self.write_leaf(&ty, &l, "acc");
+                let r = self.read_f32(&ty, &l, true);
+                vec![decl, w, format!("acc += {};", r)]
+            }
+            7 => {
+                let l = self.local("lv");
+                let n = self.rng.range(2, 4);
+                vec![
+                    format!("var {} = vec{}<f32>(acc);", l, n),
+                    format!("{}.{} = {};", l, COMPS[self.rng.below(n)], self.flit()),
+                    format!("acc = dot({}, {});", l, l),
+                ]
+            }
+            _ => vec![format!("acc = acc * {} + {};", self.flit(), self.flit())],
+        }
+    }
+}
+
+// ---------------------------------------------------------------------------------------------
+// Nesting of actions into control flow
+// ---------------------------------------------------------------------------------------------
+
+impl Gen {
+    fn leaf(&mut self, ctx: &mut Ctx, a: &Act, lvl: usize) -> String {
+        let stmts = match a {
+            Act::Access(g) => self.access(ctx, *g),
+            Act::Call(f) => self.render_call(ctx, *f),
+            Act::Phony(g) => self.phony(*g),
+            Act::Misc => self.misc(),
+        };
+        let mut out = String::new();
+        for s in stmts {
+            out.push_str(&ind(lvl));
+            out.push_str(&s);
+            out.push('\n');
+        }
+        out
+    }
+
+    fn nest(&mut self, ctx: &mut Ctx, acts: &[Act], depth: usize, lvl: usize) -> String {
+        let mut out = String::new();
+        let mut i = 0;
+        while i < acts.len() {
+            if depth < ctx.max_nest && self.rng.pct(ctx.nest_pct) {
+                let k = self.rng.range(1, (acts.len() - i).min(4));
+                let sub = acts[i..i + k].to_vec();
+                i += k;
+                out.push_str(&self.construct(ctx, &sub, depth + 1, lvl));
+            } else {
+                out.push_str(&self.leaf(ctx, &acts[i], lvl));
+                i += 1;
+            }
+        }
+        out
+    }
+
+    fn split(&mut self, acts: &[Act], k: usize) -> Vec<Vec<Act>> {
+        let mut parts: Vec<Vec<Act>> = (0..k).map(|_| Vec::new()).collect();
+        // make sure the first part is non-empty, spread the rest randomly
+        for (i, a) in acts.iter().enumerate() {
+            let p = if i < k && self.rng.pct(70) { i } else { self.rng.below(k) };
+            parts[p].push(a.clone());
+        }
+        parts
+    }
+
+    fn sub(&mut self, ctx: &mut Ctx, pos: &'static str, acts: &[Act], depth: usize, lvl: usize) -> String {
+        ctx.pos.push(pos);
+        let s = self.nest(ctx, acts, depth, lvl);
+        ctx.pos.pop();
+        s
+    }
+
+    fn construct(&mut self, ctx: &mut Ctx, acts: &[Act], depth: usize, lvl: usize) -> String {
+        let i0 = ind(lvl);
+        let i1 = ind(lvl + 1);
+        let i2 = ind(lvl + 2);
+        let w: [u32; 7] = if ctx.in_continuing {
+            [30, 25, 10, 5, 10, 5, 15]
+        } else {
+            [22, 20, 15, 14, 10, 8, 11]
+        };
+        match self.rng.weighted(&w) {
+            0 => {
+                self.feat("nest_if");
+                let c = self.cond(ctx);
+                let body = self.sub(ctx, "if", acts, depth, lvl + 1);
+                if self.rng.pct(25) {
+                    format!("{}if {} {{\n{}{}}}\n", i0, c, body, i0)
+                } else {
+                    format!("{}if ({}) {{\n{}{}}}\n", i0, c, body, i0)
+                }
+            }
+            1 => {
+                self.feat("nest_if_else");
+                let c = self.cond(ctx);
+                let n = if acts.len() >= 3 && self.rng.pct(30) { 3 } else { 2 };
+                let parts = self.split(acts, n);
+                let a = self.sub(ctx, "if", &parts[0], depth, lvl + 1);
+                let mut out = format!("{}if ({}) {{\n{}{}}}", i0, c, a, i0);
+                if n == 3 {
+                    self.feat("nest_else_if");
+                    let c2 = self.cond(ctx);
+                    let b = self.sub(ctx, "else", &parts[1], depth, lvl + 1);
+                    out.push_str(&format!(" else if ({}) {{\n{}{}}}", c2, b, i0));
+                }
+                let e = self.sub(ctx, "else", &parts[n - 1], depth, lvl + 1);
+                out.push_str(&format!(" else {{\n{}{}}}\n", e, i0));
+                out
+            }
+            2 => {
+                self.feat("nest_switch");
+                let n = self.rng.range(2, 4);
+                let parts = self.split(acts, n);
+                let sel = match self.rng.below(3) {
+                    0 => "i32(acc)".to_string(),
+                    1 => "u32(acc) % 4u".to_string(),
+                    _ => format!("i32(acc * {})", self.flit()),
+                };
+                let unsigned = sel.starts_with("u32");
+                let suffix = if unsigned { "u" } else { "" };
+                let default_at = self.rng.below(n);
+                let mut out = format!("{}switch {} {{\n", i0, sel);
+                let mut next_case = 0;
+                for (k, p) in parts.iter().enumerate() {
+                    if k == default_at {
+                        let body = self.sub(ctx, "default", p, depth, lvl + 2);
+                        if self.rng.pct(20) {
+                            self.feat("switch_case_default_combined");
+                            out.push_str(&format!("{}case {}{}, default: {{\n{}{}}}\n", i1, next_case, suffix, body, i1));
+                            next_case += 1;
+                        } else if self.rng.pct(30) {
+                            out.push_str(&format!("{}default {{\n{}{}}}\n", i1, body, i1));
+                        } else {
+                            out.push_str(&format!("{}default: {{\n{}{}}}\n", i1, body, i1));
+                        }
+                    } else {
+                        let body = self.sub(ctx, "case", p, depth, lvl + 2);
+                        if self.rng.pct(30) {
+                            out.push_str(&format!(
+                                "{}case {}{}, {}{}: {{\n{}{}}}\n",
+                                i1, next_case, suffix, next_case + 1, suffix, body, i1
+                            ));
+                            next_case += 2;
+                        } else {
+                            out.push_str(&format!("{}case {}{}: {{\n{}{}}}\n", i1, next_case, suffix, body, i1));
+                            next_case += 1;
+                        }
+                    }
+                }
+                out.push_str(&format!("{}}}\n", i0));
+                out
+            }
+            3 => {
+                self.feat("nest_loop");
+                let ix = self.local("ix");
+                let parts = self.split(acts, 2);
+                let mut out = format!("{}var {}: u32 = 0u;\n{}loop {{\n", i0, ix, i0);
+                if self.rng.pct(40) {
+                    self.feat("loop_break_stmt");
+                    out.push_str(&format!("{}if ({} >= 3u) {{ break; }}\n", i1, ix));
+                }
+                out.push_str(&self.sub(ctx, "loop", &parts[0], depth, lvl + 1));
+                out.push_str(&format!("{}continuing {{\n", i1));
+                let was = ctx.in_continuing;
+                ctx.in_continuing = true;
+                if !parts[1].is_empty() {
+                    self.feat("nest_continuing");
+                }
+                out.push_str(&self.sub(ctx, "continuing", &parts[1], depth, lvl + 2));
+                ctx.in_continuing = was;
+                out.push_str(&format!("{}{} += 1u;\n", i2, ix));
+                let r = self.returning(ctx, 0);
+                if !r.is_empty() && self.rng.pct(15) {
+                    self.feat("call_in_break_if");
+                    let f = *self.rng.pick(&r);
+                    let c = self.call_expr(ctx, f, false);
+                    out.push_str(&format!("{}break if {} >= 2u || {} > 1000.0;\n", i2, ix, c));
+                } else {
+                    out.push_str(&format!("{}break if {} >= 2u;\n", i2, ix));
+                }
+                out.push_str(&format!("{}}}\n{}}}\n", i1, i0));
+                out
+            }
+            4 => {
+                self.feat("nest_for");
+                let ix = self.local("ix");
+                let k = self.rng.range(1, 3);
+                let r = self.returning(ctx, 0);
+                let extra = if !r.is_empty() && !ctx.in_continuing && self.rng.pct(15) {
+                    self.feat("call_in_for_header");
+                    let f = *self.rng.pick(&r);
+                    format!(" && {} < 1000.0", self.call_expr(ctx, f, false))
+                } else {
+                    String::new()
+                };
+                let inc = if self.rng.pct(50) { format!("{}++", ix) } else { format!("{} += 1", ix) };
+                let body = self.sub(ctx, "for", acts, depth, lvl + 1);
+                format!("{}for (var {}: i32 = 0; {} < {}{}; {}) {{\n{}{}}}\n", i0, ix, ix, k, extra, inc, body, i0)
+            }
+            5 => {
+                self.feat("nest_while");
+                let ix = self.local("ix");
+                let k = self.rng.range(1, 3);
+                let body = self.sub(ctx, "while", acts, depth, lvl + 1);
+                format!(
+                    "{}var {} = 0;\n{}while ({} < {}) {{\n{}{} += 1;\n{}{}}}\n",
+                    i0, ix, i0, ix, k, i1, ix, body, i0
+                )
+            }
+            _ => {
+                self.feat("nest_block");
+                let body = self.sub(ctx, "block", acts, depth, lvl + 1);
+                format!("{}{{\n{}{}}}\n", i0, body, i0)
+            }
+        }
+    }
+
+    // -----------------------------------------------------------------------------------------
+    // Choosing actions
+    // -----------------------------------------------------------------------------------------
+
+    /// Globals that may be referenced from code restricted to stages `mask`.
+    fn usable_globals(&self, mask: u8) -> Vec<usize> {
+        self.globals
+            .iter()
+            .enumerate()
+            .filter(|(_, g)| !g.no_use)
+            .filter(|(_, g)| !matches!(g.kind, GKind::Workgroup { .. }) || mask == ST_C)
+            .filter(|(_, g)| !matches!(g.kind, GKind::Sampler(_)))
+            .map(|(i, _)| i)
+            .collect()
+    }
+
+    fn callable_for(&self, mask: u8, cap: usize) -> Vec<usize> {
+        (0..self.funcs.len())
+            .filter(|&f| self.funcs[f].mask & mask == mask && self.funcs[f].depth < cap)
+            .collect()
+    }
+
+    /// Random action list: `n` actions mixing accesses (biased toward unused globals), calls
+    /// and misc statements, plus the mandatory ones.
+    fn choose_actions(&mut self, ctx: &Ctx, n: usize, must_calls: &[usize], must_access: &[usize], call_pct: u32, deep_bias: u32) -> Vec<Act> {
+        let mut acts: Vec<Act> = Vec::new();
+        for &f in must_calls {
+            acts.push(Act::Call(f));
+        }
+        for &g in must_access {
+            acts.push(Act::Access(g));
+        }
+        let usable = self.usable_globals(ctx.mask);
+        for _ in 0..n {
+            let r = self.rng.below(100) as u32;
+            if r < call_pct && !ctx.callable.is_empty() {
+                // bias toward recently declared helpers so that call chains get deep
+                let n = ctx.callable.len();
+                let f = if self.rng.pct(deep_bias) { ctx.callable[n - 1 - self.rng.below(n.min(if deep_bias > 70 { 2 } else { 3 }))] } else { *self.rng.pick(&ctx.callable) };
+                acts.push(Act::Call(f));
+            } else if r < call_pct + 45 && !usable.is_empty() {
+                // prefer globals nobody touched yet
+                let unused: Vec<usize> = usable.iter().copied().filter(|&g| self.globals[g].uses == 0).collect();
+                let g = if !unused.is_empty() && self.rng.pct(70) { *self.rng.pick(&unused) } else { *self.rng.pick(&usable) };
+                if self.rng.pct(5) {
+                    acts.push(Act::Phony(g));
+                } else {
+                    acts.push(Act::Access(g));
+                }
+            } else {
+                acts.push(Act::Misc);
+            }
+        }
+        self.rng.shuffle(&mut acts);
+        acts
+    }
+
+    fn new_ctx(&self, mask: u8, cfg: &Cfg) -> Ctx {
+        Ctx {
+            mask,
+            callable: self.callable_for(mask, cfg.call_depth_cap),
+            max_nest: cfg.max_nest,
+            nest_pct: cfg.nest_pct,
+            called: Vec::new(),
+            pos: Vec::new(),
+            in_continuing: false,
+            depth_cap: cfg.call_depth_cap,
+        }
+    }
+
+    fn depth_of_calls(&self, called: &[usize]) -> usize {
+        1 + called.iter().map(|&f| self.funcs[f].depth).max().unwrap_or(0)
+    }
+
+    // -----------------------------------------------------------------------------------------
+    // Helper functions
+    // -----------------------------------------------------------------------------------------
+
+    fn gen_helper(&mut self, cfg: &Cfg, must_calls: &[usize], must_access: &[usize], want_mask: Option<u8>) -> usize {
+        self.lv = 0;
+        let mut mask = want_mask.unwrap_or_else(|| match self.rng.below(20) {
+            0..=11 => ST_ALL,
+            12 | 13 => ST_F,
+            14 | 15 => ST_C,
+            16 => ST_V,
+            17 => ST_V | ST_F,
+            18 => ST_F | ST_C,
+            _ => ST_V | ST_C,
+        });
+        let mut must_calls: Vec<usize> = must_calls.to_vec();
+        if must_calls.is_empty() && !cfg.shapes && !self.funcs.is_empty() && self.rng.pct(cfg.deep_bias * 7 / 10) {
+            // extend the most recent helper into a chain
+            let last = self.funcs.len() - 1;
+            if self.funcs[last].depth < cfg.call_depth_cap {
+                must_calls.push(last);
+            }
+        }
+        let mut calls: Vec<usize> = Vec::new();
+        for &f in &must_calls {
+            if self.funcs[f].mask & mask != 0 {
+                mask &= self.funcs[f].mask;
+                calls.push(f);
+            }
+        }
+        let accesses: Vec<usize> = must_access
+            .iter()
+            .copied()
+            .filter(|&g| !matches!(self.globals[g].kind, GKind::Workgroup { .. }) || mask == ST_C)
+            .collect();
+        let mut ctx = self.new_ctx(mask, cfg);
+        // mandated callees ignore the depth cap filter but must be stage compatible (ensured above)
+        let name = self.fresh(0);
+        let nparams = *self.rng.pick(&[0, 0, 0, 1, 1, 2]);
+        let returns = self.rng.pct(70);
+        let n = self.rng.range(cfg.acts.0, cfg.acts.1);
+        let call_pct = if cfg.shapes { 5 } else { 30 };
+        let acts = self.choose_actions(&ctx, n, &calls, &accesses, call_pct, cfg.deep_bias);
+        let mut body = String::new();
+        let init = if nparams > 0 { "arg0".to_string() } else { self.flit() };
+        body.push_str(&format!("{}var acc: f32 = {};\n", ind(1), init));
+        if nparams > 1 {
+            body.push_str(&format!("{}acc += arg1;\n", ind(1)));
+        }
+        body.push_str(&self.nest(&mut ctx, &acts, 0, 1));
+        if returns {
+            body.push_str(&format!("{}return acc;\n", ind(1)));
+        } else if self.rng.pct(20) {
+            body.push_str(&format!("{}return;\n", ind(1)));
+        }
+        let params: Vec<String> = (0..nparams).map(|i| format!("arg{}: f32", i)).collect();
+        let ret = if returns { " -> f32" } else { "" };
+        let text = format!("fn {}({}){} {{\n{}}}\n", name, params.join(", "), ret, body);
+        let depth = self.depth_of_calls(&ctx.called);
+        match mask {
+            ST_F => self.feat("helper_fragment_only"),
+            ST_C => self.feat("helper_compute_only"),
+            ST_ALL => self.feat("helper_any_stage"),
+            _ => self.feat("helper_two_stages"),
+        }
+        if depth >= 6 {
+            self.feat("call_depth_ge6");
+        }
+        if depth >= 10 {
+            self.feat("call_depth_ge10");
+        }
+        for &c in &ctx.called {
+            self.callee_set.insert(c);
+        }
+        self.entries.push(text.clone());
+        self.funcs.push(Func { name, nparams, returns, mask, depth, text });
+        self.funcs.len() - 1
+    }
+
+    // -----------------------------------------------------------------------------------------
+    // Globals
+    // -----------------------------------------------------------------------------------------
+
+    fn push_global(&mut self, name: String, kind: GKind) -> usize {
+        self.globals.push(Global { name, kind, group: 0, binding: 0, uses: 0, no_use: false });
+        self.globals.len() - 1
+    }
+
+    fn gen_simple_buffer_ty(&mut self, space: Space) -> Ty {
+        match self.rng.below(6) {
+            0 => Ty::Scalar(*self.rng.pick(&[Sc::F32, Sc::U32, Sc::I32])),
+            1 => Ty::Vec(4, Sc::F32),
+            2 => Ty::Mat(4, 4),
+            3 if space != Space::Uniform => Ty::RtArray(Box::new(Ty::Scalar(Sc::F32))),
+            4 => Ty::Array(Box::new(Ty::Vec(4, Sc::F32)), self.rng.range(1, 8) as u32),
+            _ => {
+                let req = if space == Space::Uniform { Req::UNIFORM } else { Req::STORAGE_RO };
+                Ty::Struct(self.gen_struct(req, 0, (1, 3), false))
+            }
+        }
+    }
+
+    fn req_for(&self, space: Space) -> Req {
+        let mut r = match space {
+            Space::Uniform => Req::UNIFORM,
+            Space::StorageRead => Req::STORAGE_RO,
+            Space::StorageRW => Req::STORAGE_RW,
+        };
+        r.f64_ok = self.allow_f64;
+        r
+    }
+
+    fn gen_buffer_ty(&mut self, cfg: &Cfg, space: Space) -> Ty {
+        if cfg.simple_buffers {
+            return self.gen_simple_buffer_ty(space);
+        }
+        let req = self.req_for(space);
+        let storage = space != Space::Uniform;
+        let w = if self.struct_roles { [75, 12, if storage { 13 } else { 0 }, 0, 0, 0] } else { [50, 15, if storage { 15 } else { 0 }, 7, 8, 5] };
+        match self.rng.weighted(&w) {
+            0 => {
+                self.feat("buffer_struct");
+                let rt = storage && self.rng.pct(30);
+                // reuse an existing compatible struct sometimes (a struct in several roles)
+                if !rt && self.rng.pct(25) {
+                    let c: Vec<usize> = (0..self.structs.len())
+                        .filter(|&i| {
+                            let t = Ty::Struct(i);
+                            !ty_flags(&self.structs, &t).has_rt && satisfies(&self.structs, &t, req)
+                        })
+                        .collect();
+                    if !c.is_empty() {
+                        self.feat("struct_multi_role");
+                        return Ty::Struct(*self.rng.pick(&c));
+                    }
+                }
+                Ty::Struct(self.gen_struct(req, cfg.struct_depth, cfg.struct_members, rt))
+            }
+            1 => {
+                self.feat("buffer_fixed_array");
+                let n = self.gen_array_len();
+                for _ in 0..8 {
+                    let e = self.gen_member_ty(req, cfg.struct_depth.min(1), 1);
+                    let a = Ty::Array(Box::new(e), n);
+                    if (!req.uniform || uniform_align(&self.structs, &a).is_some()) && size_align(&self.structs, &a).0 < (1 << 20) {
+                        return a;
+                    }
+                }
+                Ty::Array(Box::new(Ty::Vec(4, Sc::F32)), n)
+            }
+            2 => {
+                self.feat("buffer_rt_array");
+                let mut r = req;
+                r.uniform = false;
+                let e = self.gen_member_ty(r, cfg.struct_depth.min(1), 1);
+                Ty::RtArray(Box::new(e))
+            }
+            3 => {
+                self.feat("buffer_scalar");
+                Ty::Scalar(*self.rng.pick(&[Sc::F32, Sc::U32, Sc::I32]))
+            }
+            4 => {
+                self.feat("buffer_vector");
+                Ty::Vec(self.rng.range(2, 4) as u8, *self.rng.pick(&[Sc::F32, Sc::U32, Sc::I32]))
+            }
+            _ => {
+                self.feat("buffer_matrix");
+                Ty::Mat(self.rng.range(2, 4) as u8, self.rng.range(2, 4) as u8)
+            }
+        }
+    }
+
+    fn gen_buffer(&mut self, cfg: &Cfg) -> usize {
+        let space = match self.rng.below(10) {
+            0..=3 => Space::Uniform,
+            4..=6 => Space::StorageRead,
+            _ => Space::StorageRW,
+        };
+        self.feat(match space {
+            Space::Uniform => "var_uniform",
+            Space::StorageRead => "var_storage_read",
+            Space::StorageRW => "var_storage_rw",
+        });
+        let ty = if space == Space::StorageRW && !cfg.simple_buffers && self.rng.permille(8) {
+            // documented unsupported by wgsl_to_wgpu (panics): a bare atomic binding
+            self.feat("atomic_binding");
+            Ty::Atomic(Sc::U32)
+        } else {
+            self.gen_buffer_ty(cfg, space)
+        };
+        let name = self.fresh(0);
+        self.push_global(name, GKind::Buffer { space, ty })
+    }
+
+    fn random_tex(&mut self) -> Tex {
+        let kinds = [Sc::F32, Sc::F32, Sc::I32, Sc::U32];
+        match self.rng.weighted(&[40, 8, 16, 4, 32]) {
+            0 => {
+                let dim = *self.rng.pick(&[Dim::D1, Dim::D2, Dim::D2, Dim::D2Array, Dim::D3, Dim::Cube, Dim::CubeArray]);
+                Tex::Sampled { dim, sc: *self.rng.pick(&kinds) }
+            }
+            1 => Tex::Multi { sc: *self.rng.pick(&kinds) },
+            2 => Tex::Depth { dim: *self.rng.pick(&[Dim::D2, Dim::D2Array, Dim::Cube, Dim::CubeArray]) },
+            3 => Tex::DepthMulti,
+            _ => {
+                let dim = *self.rng.pick(&[Dim::D1, Dim::D2, Dim::D2, Dim::D2Array, Dim::D3]);
+                if self.rng.pct(7) {
+                    self.feat("storage_atomic");
+                    let (fmt, sc) = *self.rng.pick(&[("r32uint", Sc::U32), ("r32sint", Sc::I32), ("r64uint", Sc::U64)]);
+                    self.feat(fmt_feature(fmt));
+                    Tex::Storage { dim, fmt, sc, access: "atomic" }
+                } else {
+                    let (fmt, sc) = *self.rng.pick(STORAGE_FORMATS);
+                    let access = *self.rng.pick(&["read", "write", "read_write"]);
+                    self.feat(fmt_feature(fmt));
+                    self.feat(match access {
+                        "read" => "storage_read",
+                        "write" => "storage_write",
+                        _ => "storage_read_write",
+                    });
+                    Tex::Storage { dim, fmt, sc, access }
+                }
+            }
+        }
+    }
+
+    fn gen_texture(&mut self) -> usize {
+        let t = self.random_tex();
+        self.feat(tex_feature(&t));
+        let name = self.fresh(0);
+        self.push_global(name, GKind::Tex(t))
+    }
+
+    /// Adds the samplers required to exercise the declared textures.
+    fn gen_samplers(&mut self) {
+        let mut need_plain = false;
+        let mut need_cmp = false;
+        for g in &self.globals {
+            match &g.kind {
+                GKind::Tex(Tex::Sampled { .. }) => need_plain = true,
+                GKind::Tex(Tex::Depth { .. }) => {
+                    need_cmp = true;
+                    need_plain = true;
+                }
+                _ => {}
+            }
+        }
+        if need_plain && self.rng.pct(90) {
+            let n = if self.rng.pct(15) { 2 } else { 1 };
+            for _ in 0..n {
+                self.feat("sampler");
+                let name = self.fresh(0);
+                self.push_global(name, GKind::Sampler(false));
+            }
+        }
+        if need_cmp && self.rng.pct(90) {
+            self.feat("sampler_comparison");
+            let name = self.fresh(0);
+            self.push_global(name, GKind::Sampler(true));
+        }
+    }
+
+    fn gen_private(&mut self, cfg: &Cfg) -> usize {
+        self.feat("var_private");
+        let mut req = Req::PRIVATE;
+        req.f64_ok = self.allow_f64;
+        let ty = if self.struct_roles {
+            self.feat("struct_private");
+            Ty::Struct(self.gen_struct(req, cfg.struct_depth, cfg.struct_members, false))
+        } else if self.rng.pct(50) {
+            self.gen_leaf(req)
+        } else {
+            self.gen_member_ty(req, cfg.struct_depth.min(2), 0)
+        };
+        let init = if self.rng.pct(35) && size_align(&self.structs, &ty).0 <= 128 {
+            self.feat("private_init");
+            let v = self.flit();
+            Some(self.splat(&ty, &v))
+        } else {
+            None
+        };
+        let name = self.fresh(0);
+        self.push_global(name, GKind::Private { ty, init })
+    }
+
+    fn gen_workgroup(&mut self, cfg: &Cfg) -> usize {
+        self.feat("var_workgroup");
+        let mut req = Req::WORKGROUP;
+        req.f64_ok = self.allow_f64;
+        let u32_overrides: Vec<String> = self
+            .overrides
+            .iter()
+            .filter(|o| o.sc == Sc::U32 && o.has_default)
+            .map(|o| o.name.clone())
+            .collect();
+        let name = self.fresh(0);
+        if !u32_overrides.is_empty() && self.rng.pct(25) {
+            self.feat("override_array_len");
+            let o = self.rng.pick(&u32_overrides).clone();
+            let elem = if self.rng.pct(50) { Ty::Scalar(Sc::F32) } else { Ty::Atomic(Sc::U32) };
+            let len = if self.rng.pct(30) { format!("{} * 2u", o) } else { o };
+            return self.push_global(name, GKind::Workgroup { ty: Ty::Array(Box::new(elem), 1), len: Some(len) });
+        }
+        let ty = if self.struct_roles {
+            self.feat("struct_workgroup");
+            Ty::Struct(self.gen_struct(req, cfg.struct_depth, cfg.struct_members, false))
+        } else if self.rng.pct(40) {
+            self.gen_leaf(req)
+        } else {
+            self.gen_member_ty(req, cfg.struct_depth.min(2), 0)
+        };
+        self.push_global(name, GKind::Workgroup { ty, len: None })
+    }
+
+    fn gen_push_const(&mut self, cfg: &Cfg) -> usize {
+        self.feat("var_push_constant");
+        let req = Req::STORAGE_RO;
+        let ty = match self.rng.below(5) {
+            0 => Ty::Scalar(*self.rng.pick(&[Sc::F32, Sc::U32, Sc::I32])),
+            1 => Ty::Vec(self.rng.range(2, 4) as u8, Sc::F32),
+            2 => Ty::Mat(self.rng.range(2, 4) as u8, self.rng.range(2, 4) as u8),
+            3 => Ty::Array(Box::new(self.gen_leaf(req)), self.rng.range(1, 8) as u32),
+            _ => Ty::Struct(self.gen_struct(req, cfg.struct_depth.min(1), (2, 5), false)),
+        };
+        let name = if self.rng.pct(30) && self.claim("pc") { "pc".to_string() } else { self.fresh(0) };
+        self.push_global(name, GKind::PushConst { ty })
+    }
+
+    /// Assigns (group, binding) to all resource globals: groups dense `0..n` but declaration
+    /// order unrelated to index order; bindings distinct per group, often sparse / unordered.
+    fn assign_bindings(&mut self, max_groups: usize) {
+        let res: Vec<usize> = (0..self.globals.len())
+            .filter(|&i| matches!(self.globals[i].kind, GKind::Buffer { .. } | GKind::Tex(_) | GKind::Sampler(_)))
+            .collect();
+        if res.is_empty() {
+            return;
+        }
+        let cap = if self.rng.pct(5) { 8 } else { max_groups };
+        let ng = self.rng.range(1, cap.min(res.len()).max(1));
+        if ng > 4 {
+            self.feat("groups_gt4");
+        }
+        if ng > 1 {
+            self.feat("multi_group");
+        }
+        // every group gets at least one resource
+        let mut order = res.clone();
+        self.rng.shuffle(&mut order);
+        let mut per_group: Vec<Vec<usize>> = (0..ng).map(|_| Vec::new()).collect();
+        for (k, &g) in order.iter().enumerate() {
+            let grp = if k < ng { k } else { self.rng.below(ng) };
+            per_group[grp].push(g);
+        }
+        for (grp, members) in per_group.iter().enumerate() {
+            let sparse = self.rng.pct(40);
+            if sparse {
+                self.feat("sparse_bindings");
+            }
+            let mut used: Vec<u32> = Vec::new();
+            for (k, &g) in members.iter().enumerate() {
+                let b = if sparse {
+                    let mut b;
+                    loop {
+                        b = match self.rng.below(12) {
+                            0..=5 => self.rng.below(12) as u32,
+                            6 => 16,
+                            7 => 31,
+                            8 => 100 + self.rng.below(100) as u32,
+                            9 => 1000,
+                            10 => 65535,
+                            _ => {
+                                self.feat("huge_binding");
+                                4000000000u32 - self.rng.below(3) as u32
+                            }
+                        };
+                        if !used.contains(&b) {
+                            break;
+                        }
+                    }
+                    b
+                } else {
+                    k as u32
+                };
+                used.push(b);
+                self.globals[g].group = grp as u32;
+                self.globals[g].binding = b;
+            }
+            if !sparse && members.len() > 1 && self.rng.pct(60) {
+                // dense indices, but permuted relative to declaration order
+                let mut bs: Vec<u32> = (0..members.len() as u32).collect();
+                self.rng.shuffle(&mut bs);
+                for (k, &g) in members.iter().enumerate() {
+                    self.globals[g].binding = bs[k];
+                }
+            }
+        }
+    }
+
+    fn render_global(&mut self, i: usize) -> String {
+        let g = self.globals[i].clone();
+        let attr = |s: &mut Gen| -> String {
+            let b = if g.binding > 2147483647 || s.rng.pct(8) { format!("{}u", g.binding) } else { format!("{}", g.binding) };
+            let gr = if g.group > 2147483647 || s.rng.pct(8) { format!("{}u", g.group) } else { format!("{}", g.group) };
+            if s.rng.pct(12) {
+                s.feat("binding_before_group");
+                format!("@binding({}) @group({})", b, gr)
+            } else {
+                format!("@group({}) @binding({})", gr, b)
+            }
+        };
+        match &g.kind {
+            GKind::Buffer { space, ty } => {
+                let sp = match space {
+                    Space::Uniform => "var<uniform>",
+                    Space::StorageRead => {
+                        if self.rng.pct(30) {
+                            "var<storage>"
+                        } else {
+                            "var<storage, read>"
+                        }
+                    }
+                    Space::StorageRW => "var<storage, read_write>",
+                };
+                format!("{} {} {}: {};\n", attr(self), sp, g.name, self.ts(ty))
+            }
+            GKind::Tex(t) => format!("{} var {}: {};\n", attr(self), g.name, t.wgsl()),
+            GKind::Sampler(c) => {
+                format!("{} var {}: {};\n", attr(self), g.name, if *c { "sampler_comparison" } else { "sampler" })
+            }
+            GKind::Private { ty, init } => match init {
+                Some(e) => format!("var<private> {}: {} = {};\n", g.name, self.ts(ty), e),
+                None => format!("var<private> {}: {};\n", g.name, self.ts(ty)),
+            },
+            GKind::Workgroup { ty, len } => match (len, ty) {
+                (Some(l), Ty::Array(e, _)) => format!("var<workgroup> {}: array<{}, {}>;\n", g.name, self.ts(e), l),
+                _ => format!("var<workgroup> {}: {};\n", g.name, self.ts(ty)),
+            },
+            GKind::PushConst { ty } => format!("var<push_constant> {}: {};\n", g.name, self.ts(ty)),
+        }
+    }
+
+    fn render_struct(&mut self, i: usize) -> String {
+        let s = self.structs[i].clone();
+        let mut out = format!("struct {} {{\n", s.name);
+        let n = s.members.len();
+        for (k, m) in s.members.iter().enumerate() {
+            let mut attrs = String::new();
+            if let Some(io) = &m.io {
+                attrs.push_str(io);
+                attrs.push(' ');
+            }
+            if let Some(a) = m.align {
+                attrs.push_str(&format!("@align({}) ", a));
+            }
+            if let Some(sz) = m.size {
+                attrs.push_str(&format!("@size({}) ", sz));
+            }
+            let comma = if k + 1 == n && self.rng.pct(40) { "" } else { "," };
+            out.push_str(&format!("    {}{}: {}{}\n", attrs, m.name, self.ts(&m.ty), comma));
+        }
+        out.push_str(if self.rng.pct(15) { "};\n" } else { "}\n" });
+        out
+    }
+}
+
+// ---------------------------------------------------------------------------------------------
+// Constants and overrides
+// ---------------------------------------------------------------------------------------------
+
+impl Gen {
+    fn const_name(&mut self) -> String {
+        let n = self.fresh(0);
+        if self.rng.pct(50) && n.is_ascii() {
+            n.to_uppercase()
+        } else {
+            n
+        }
+    }
+
+    fn gen_const(&mut self) {
+        let name = self.const_name();
+        let ints: Vec<ConstDef> = self
+            .consts
+            .iter()
+            .filter(|c| matches!(c.kind, CKind::AInt | CKind::I32 | CKind::U32) && c.small.is_some())
+            .cloned()
+            .collect();
+        let floats: Vec<ConstDef> = self
+            .consts
+            .iter()
+            .filter(|c| matches!(c.kind, CKind::AFloat | CKind::F32) && c.small.is_some())
+            .cloned()
+            .collect();
+        let bools: Vec<ConstDef> = self.consts.iter().filter(|c| c.kind == CKind::Bool).cloned().collect();
+        let (text, kind, small): (String, CKind, Option<i64>) = match self.rng.below(16) {
+            0 => {
+                self.feat("const_abstract_int");
+                let v = self.rng.range(1, 8) as i64;
+                (format!("const {} = {};", name, v), CKind::AInt, Some(v))
+            }
+            1 => {
+                self.feat("const_u32");
+                let v = self.rng.range(1, 8) as i64;
+                (format!("const {}: u32 = {}u;", name, v), CKind::U32, Some(v))
+            }
+            2 => {
+                self.feat("const_abstract_float");
+                let v = self.flit();
+                (format!("const {} = {};", name, v), CKind::AFloat, Some(0))
+            }
+            3 => {
+                self.feat("const_f32");
+                let v = *self.rng.pick(&["-0.0", "0.0", "1.0", "-2.5", "3.14159", "1e5f", "0x1p-2", "1.5f", ".5", "2."]);
+                if v == "-0.0" {
+                    self.feat("const_negative_zero");
+                }
+                (format!("const {}: f32 = {};", name, v), CKind::F32, Some(0))
+            }
+            4 if !ints.is_empty() => {
+                self.feat("const_refers_const");
+                let c = self.rng.pick(&ints).clone();
+                let v = c.small.unwrap();
+                let k = self.rng.range(1, 3) as i64;
+                let sfx = if c.kind == CKind::U32 { "u" } else { "" };
+                if self.rng.pct(50) {
+                    (format!("const {} = {} + {}{};", name, c.name, k, sfx), c.kind, Some(v + k).filter(|x| *x <= 60))
+                } else {
+                    (format!("const {} = {} * {}{};", name, c.name, k, sfx), c.kind, Some(v * k).filter(|x| *x <= 60))
+                }
+            }
+            5 => {
+                self.feat("const_bool");
+                if !bools.is_empty() && self.rng.pct(40) {
+                    self.feat("const_refers_const");
+                    let c = self.rng.pick(&bools).clone();
+                    (format!("const {} = !{};", name, c.name), CKind::Bool, None)
+                } else {
+                    let v = *self.rng.pick(&["true", "false", "1 < 2", "true && false"]);
+                    if self.rng.pct(50) {
+                        (format!("const {}: bool = {};", name, v), CKind::Bool, None)
+                    } else {
+                        (format!("const {} = {};", name, v), CKind::Bool, None)
+                    }
+                }
+            }
+            6 => {
+                self.feat("const_int_extreme");
+                match self.rng.below(5) {
+                    0 => (format!("const {}: i32 = -2147483648;", name), CKind::I32, None),
+                    1 => (format!("const {}: i32 = 2147483647;", name), CKind::I32, None),
+                    2 => (format!("const {} = -2147483648;", name), CKind::AInt, None),
+                    3 => (format!("const {}: u32 = 4294967295u;", name), CKind::U32, None),
+                    _ => (format!("const {} = 0xFFFFFFFFu;", name), CKind::U32, None),
+                }
+            }
+            7 => {
+                self.feat("const_float_extreme");
+                let v = *self.rng.pick(&["3.4028235e38", "-3.4028235e38", "1e-45", "1.17549435e-38", "1e-40", "3.4028234e38f"]);
+                if self.rng.pct(50) {
+                    (format!("const {}: f32 = {};", name, v), CKind::F32, None)
+                } else {
+                    (format!("const {} = {};", name, v), CKind::AFloat, None)
+                }
+            }
+            8 if self.allow_f64 => {
+                self.feat("f64_const");
+                self.feat("f64");
+                let v = *self.rng.pick(&["1.5lf", "2.0lf", "0.1lf", "1e10lf"]);
+                if self.rng.pct(60) {
+                    (format!("const {}: f64 = {};", name, v), CKind::F64, None)
+                } else {
+                    (format!("const {} = {};", name, v), CKind::F64, None)
+                }
+            }
+            9 => {
+                self.feat("const_vector");
+                let n = self.rng.range(2, 4) as u8;
+                let sc = *self.rng.pick(&[Sc::F32, Sc::F32, Sc::I32, Sc::U32]);
+                let lits: Vec<String> = (0..n)
+                    .map(|k| match sc {
+                        Sc::F32 => format!("{}.0", k + 1),
+                        Sc::I32 => format!("{}", k as i32 - 1),
+                        _ => format!("{}u", k + 1),
+                    })
+                    .collect();
+                match self.rng.below(3) {
+                    0 => (format!("const {} = vec{}<{}>({});", name, n, sc.name(), lits.join(", ")), CKind::Vec(n, sc), None),
+                    1 => (format!("const {}: vec{}<{}> = vec{}<{}>({});", name, n, sc.name(), n, sc.name(), lits[0]), CKind::Vec(n, sc), None),
+                    _ => {
+                        // inferred from abstract literals: concretizes to f32 / i32 / u32
+                        (format!("const {} = vec{}({});", name, n, lits.join(", ")), CKind::Vec(n, sc), None)
+                    }
+                }
+            }
+            10 => {
+                self.feat("const_array");
+                let n = self.rng.range(1, 5) as u32;
+                let sc = *self.rng.pick(&[Sc::F32, Sc::I32, Sc::U32]);
+                let lits: Vec<String> = (0..n)
+                    .map(|k| match sc {
+                        Sc::F32 => format!("{}.5", k),
+                        Sc::I32 => format!("{}", k as i32 - 2),
+                        _ => format!("{}u", k),
+                    })
+                    .collect();
+                if self.rng.pct(60) {
+                    (format!("const {} = array<{}, {}>({});", name, sc.name(), n, lits.join(", ")), CKind::Arr(n, sc), None)
+                } else {
+                    (format!("const {} = array({});", name, lits.join(", ")), CKind::Arr(n, sc), None)
+                }
+            }
+            11 => {
+                self.feat("const_i32");
+                let v = self.rng.range(1, 8) as i64;
+                match self.rng.below(3) {
+                    0 => (format!("const {} = {}i;", name, v), CKind::I32, Some(v)),
+                    1 => (format!("const {}: i32 = {};", name, v), CKind::I32, Some(v)),
+                    _ => (format!("const {}: i32 = -{};", name, v), CKind::I32, None),
+                }
+            }
+            12 if !floats.is_empty() => {
+                self.feat("const_refers_const");
+                let c = self.rng.pick(&floats).clone();
+                (format!("const {} = {} * 2.0 + 0.5;", name, c.name), c.kind, None)
+            }
+            13 if !ints.is_empty() => {
+                self.feat("const_refers_const");
+                let c: Vec<ConstDef> = ints.iter().filter(|c| c.kind == CKind::AInt).cloned().collect();
+                if c.is_empty() {
+                    (format!("const {} = 2;", name), CKind::AInt, Some(2))
+                } else {
+                    let c = self.rng.pick(&c).clone();
+                    if self.rng.pct(50) {
+                        (format!("const {}: f32 = f32({});", name, c.name), CKind::F32, Some(0))
+                    } else {
+                        (format!("const {}: u32 = u32({}) + 1u;", name, c.name), CKind::U32, Some(c.small.unwrap() + 1))
+                    }
+                }
+            }
+            14 => {
+                self.feat("const_hex");
+                (format!("const {} = 0x{:X}u;", name, self.rng.below(256)), CKind::U32, None)
+            }
+            _ => {
+                self.feat("const_abstract_int");
+                let v = self.rng.range(1, 16) as i64;
+                (format!("const {} = {};", name, v), CKind::AInt, Some(v))
+            }
+        };
+        self.consts.push(ConstDef { name, text: format!("{}\n", text), kind, small });
+    }
+
+    fn fresh_id(&mut self) -> u32 {
+        loop {
+            let id = match self.rng.below(6) {
+                0 => 0,
+                1 => 65535,
+                2 => 1000 + self.rng.below(1000) as u32,
+                _ => self.rng.below(16) as u32,
+            };
+            if !self.used_ids.contains(&id) {
+                self.used_ids.push(id);
+                return id;
+            }
+        }
+    }
+
+    fn gen_override(&mut self) {
+        let name = self.fresh(0);
+        let id = if self.rng.pct(35) {
+            self.feat("override_id");
+            format!("@id({}) ", self.fresh_id())
+        } else {
+            String::new()
+        };
+        let same: Vec<OverrideDef> = self.overrides.iter().filter(|o| matches!(o.sc, Sc::F32 | Sc::U32 | Sc::I32)).cloned().collect();
+        let (text, sc, has_default) = match self.rng.below(10) {
+            0 | 1 => {
+                self.feat("override_no_default");
+                let sc = *self.rng.pick(&[Sc::F32, Sc::F32, Sc::U32, Sc::I32, Sc::Bool]);
+                (format!("{}override {}: {};", id, name, sc.name()), sc, false)
+            }
+            2 => {
+                self.feat("override_bool");
+                (format!("{}override {}: bool = {};", id, name, self.rng.pick(&["true", "false"])), Sc::Bool, true)
+            }
+            3 => (format!("{}override {}: u32 = {}u;", id, name, self.rng.range(1, 8)), Sc::U32, true),
+            4 => (format!("{}override {}: i32 = {};", id, name, self.rng.range(0, 9) as i32 - 4), Sc::I32, true),
+            5 => (format!("{}override {}: f32 = {};", id, name, self.flit()), Sc::F32, true),
+            6 | 7 if !same.is_empty() => {
+                self.feat("override_depends_on_override");
+                let o = self.rng.pick(&same).clone();
+                let e = match o.sc {
+                    Sc::F32 => format!("{} * 2.0", o.name),
+                    Sc::U32 => format!("{} + 1u", o.name),
+                    _ => format!("{} - 1", o.name),
+                };
+                (format!("{}override {}: {} = {};", id, name, o.sc.name(), e), o.sc, true)
+            }
+            8 => {
+                self.feat("override_inferred_type");
+                match self.rng.below(3) {
+                    0 => (format!("{}override {} = {};", id, name, self.flit()), Sc::F32, true),
+                    1 => (format!("{}override {} = {};", id, name, self.rng.range(1, 8)), Sc::I32, true),
+                    _ => (format!("{}override {} = true;", id, name), Sc::Bool, true),
+                }
+            }
+            _ => (format!("{}override {}: f32 = {};", id, name, self.flit()), Sc::F32, true),
+        };
+        self.feat("override");
+        self.overrides.push(OverrideDef { name, text: format!("{}\n", text), sc, has_default });
+    }
+}
+
+// ---------------------------------------------------------------------------------------------
+// Entry point IO
+// ---------------------------------------------------------------------------------------------
+
+struct Param {
+    text: String,
+    reads: Vec<String>,
+}
+
+impl Gen {
+    fn loc_ty(&mut self, float_bias: u32) -> Ty {
+        let sc = if self.rng.pct(float_bias) { Sc::F32 } else { *self.rng.pick(&[Sc::I32, Sc::U32]) };
+        match self.rng.below(5) {
+            0 => Ty::Scalar(sc),
+            n => Ty::Vec((n as u8).min(3) + 1, sc),
+        }
+    }
+
+    /// `@interpolate(..)` attribute text (with trailing space) for an inter-stage variable.
+    fn interp(&mut self, ty: &Ty, required_for_int: bool) -> String {
+        let is_int = matches!(ty, Ty::Scalar(Sc::I32 | Sc::U32) | Ty::Vec(_, Sc::I32 | Sc::U32));
+        if is_int {
+            if required_for_int || self.rng.pct(20) {
+                self.feat("interpolate_flat");
+                return match self.rng.below(6) {
+                    0 => "@interpolate(flat, either) ".to_string(),
+                    1 => "@interpolate(flat, first) ".to_string(),
+                    _ => "@interpolate(flat) ".to_string(),
+                };
+            }
+            return String::new();
+        }
+        if self.rng.pct(25) {
+            self.feat("interpolate_attr");
+            return self
+                .rng
+                .pick(&[
+                    "@interpolate(flat) ",
+                    "@interpolate(linear) ",
+                    "@interpolate(perspective) ",
+                    "@interpolate(linear, centroid) ",
+                    "@interpolate(perspective, sample) ",
+                    "@interpolate(perspective, center) ",
+                    "@interpolate(linear, sample) ",
+                ])
+                .to_string();
+        }
+        String::new()
+    }
+
+    /// Picks `n` distinct locations below `limit`, none of them in `avoid`.
+    fn pick_locs(&mut self, n: usize, limit: u32, avoid: &[u32], dense: bool) -> Vec<u32> {
+        let free: Vec<u32> = (0..limit).filter(|l| !avoid.contains(l)).collect();
+        let n = n.min(free.len());
+        if dense {
+            free[..n].to_vec()
+        } else {
+            let mut f = free;
+            self.rng.shuffle(&mut f);
+            f.truncate(n);
+            if self.rng.pct(50) {
+                f.sort();
+            }
+            f
+        }
+    }
+
+    fn gen_io_struct(&mut self, role: IoRole, nloc: usize, avoid_locs: &[u32], avoid_bi: &[&'static str]) -> usize {
+        let name = self.fresh(1);
+        let mut mset: BTreeSet<String> = BTreeSet::new();
+        let mut members: Vec<Member> = Vec::new();
+        let mut builtins: Vec<&'static str> = Vec::new();
+        let dense = self.rng.pct(45);
+        let limit = match role {
+            IoRole::FOut => 8,
+            _ => 16,
+        };
+        let nloc = if role == IoRole::CIn { 0 } else { nloc };
+        let locs = self.pick_locs(nloc, limit, avoid_locs, dense);
+        if !dense && !locs.is_empty() {
+            self.feat("sparse_locations");
+        }
+        for &l in &locs {
+            let (ty, attr) = match role {
+                IoRole::VIn => {
+                    let ty = self.loc_ty(65);
+                    let ip = self.interp(&ty, false);
+                    // interpolation on vertex inputs is meaningless but legal; keep it rare
+                    let ip = if self.rng.pct(10) { ip } else { String::new() };
+                    (ty, format!("@location({}) {}", l, ip))
+                }
+                IoRole::VOut | IoRole::FIn => {
+                    let ty = self.loc_ty(75);
+                    let ip = self.interp(&ty, true);
+                    (ty, format!("@location({}) {}", l, ip))
+                }
+                IoRole::FOut => {
+                    let ty = if self.rng.pct(70) { Ty::Vec(4, Sc::F32) } else { self.loc_ty(50) };
+                    (ty, format!("@location({}) ", l))
+                }
+                IoRole::CIn => unreachable!(),
+            };
+            let mname = self.fresh_in(&mut mset, 0);
+            members.push(Member { name: mname, ty, align: None, size: None, io: Some(attr.trim_end().to_string()) });
+        }
+        let bi_cands: Vec<(&'static str, Ty, u32)> = match role {
+            IoRole::VIn => vec![("vertex_index", Ty::Scalar(Sc::U32), 18), ("instance_index", Ty::Scalar(Sc::U32), 18)],
+            IoRole::VOut => vec![("position", Ty::Vec(4, Sc::F32), 100)],
+            IoRole::FIn => vec![
+                ("position", Ty::Vec(4, Sc::F32), 35),
+                ("front_facing", Ty::Scalar(Sc::Bool), 15),
+                ("sample_index", Ty::Scalar(Sc::U32), 10),
+                ("sample_mask", Ty::Scalar(Sc::U32), 10),
+            ],
+            IoRole::FOut => vec![("frag_depth", Ty::Scalar(Sc::F32), 25), ("sample_mask", Ty::Scalar(Sc::U32), 15)],
+            IoRole::CIn => vec![
+                ("global_invocation_id", Ty::Vec(3, Sc::U32), 60),
+                ("local_invocation_id", Ty::Vec(3, Sc::U32), 40),
+                ("local_invocation_index", Ty::Scalar(Sc::U32), 40),
+                ("workgroup_id", Ty::Vec(3, Sc::U32), 40),
+                ("num_workgroups", Ty::Vec(3, Sc::U32), 30),
+            ],
+        };
+        for (b, ty, p) in bi_cands {
+            if avoid_bi.contains(&b) {
+                continue;
+            }
+            if self.rng.pct(p) {
+                let mname = self.fresh_in(&mut mset, 0);
+                let inv = if b == "position" && role == IoRole::VOut && self.rng.pct(10) {
+                    self.feat("invariant");
+                    " @invariant"
+                } else {
+                    ""
+                };
+                members.push(Member { name: mname, ty, align: None, size: None, io: Some(format!("@builtin({}){}", b, inv)) });
+                builtins.push(b);
+            }
+        }
+        if members.is_empty() {
+            // a struct needs at least one member
+            let (b, ty): (&'static str, Ty) = match role {
+                IoRole::VIn => ("vertex_index", Ty::Scalar(Sc::U32)),
+                IoRole::FIn => ("front_facing", Ty::Scalar(Sc::Bool)),
+                IoRole::FOut => ("frag_depth", Ty::Scalar(Sc::F32)),
+                IoRole::CIn => ("local_invocation_index", Ty::Scalar(Sc::U32)),
+                IoRole::VOut => ("position", Ty::Vec(4, Sc::F32)),
+            };
+            if avoid_bi.contains(&b) {
+                let l = self.pick_locs(1, limit, avoid_locs, false);
+                let mname = self.fresh_in(&mut mset, 0);
+                members.push(Member { name: mname, ty: Ty::Vec(4, Sc::F32), align: None, size: None, io: Some(format!("@location({})", l[0])) });
+                let mut locs2 = locs.clone();
+                locs2.push(l[0]);
+                self.structs.push(StructDef { name, members });
+                self.io.push(IoInfo { sidx: self.structs.len() - 1, locs: locs2, builtins, role });
+                return self.io.len() - 1;
+            }
+            let mname = self.fresh_in(&mut mset, 0);
+            members.push(Member { name: mname, ty, align: None, size: None, io: Some(format!("@builtin({})", b)) });
+            builtins.push(b);
+        }
+        if !builtins.is_empty() && !locs.is_empty() {
+            self.feat("builtin_interleaved_in_struct");
+        }
+        self.rng.shuffle(&mut members);
+        self.structs.push(StructDef { name, members });
+        self.io.push(IoInfo { sidx: self.structs.len() - 1, locs, builtins, role });
+        self.io.len() - 1
+    }
+
+    /// f32 expressions reading every member of an IO struct parameter.
+    fn io_reads(&mut self, io: usize, pname: &str) -> Vec<String> {
+        let s = self.io[io].sidx;
+        let ms = self.structs[s].members.clone();
+        let mut out = Vec::new();
+        for m in ms {
+            let p = format!("{}.{}", pname, m.name);
+            out.push(self.read_f32(&m.ty, &p, false));
+        }
+        out
+    }
+
+    fn entry_name(&mut self, cfg: &Cfg) -> String {
+        let _ = cfg;
+        if !self.entry_names.is_empty() && self.clash_budget {
+            let base = self.rng.pick(&self.entry_names.clone()).clone();
+            for cand in [base.to_uppercase(), base.to_lowercase(), pascal(&base)] {
+                if cand != base && !self.entry_names.contains(&cand) && norm_name(&cand) == norm_name(&base) && cand.replace('_', "") .len() == base.replace('_', "").len() && cand.matches('_').count() == base.matches('_').count() {
+                    self.feat("case_clash");
+                    self.clash_budget = false;
+                    self.entry_names.push(cand.clone());
+                    return cand;
+                }
+            }
+        }
+        let n = loop {
+            if self.rng.pct(65) {
+                let w = *self.rng.pick(ENTRY_WORDS);
+                if self.claim(w) {
+                    break w.to_string();
+                }
+            } else {
+                break self.fresh(0);
+            }
+        };
+        self.entry_names.push(n.clone());
+        n
+    }
+
+    fn entry_body(&mut self, cfg: &Cfg, stage: u8, reads: &[String], must_calls: &[usize], must_access: &[usize]) -> String {
+        let mut ctx = self.new_ctx(stage, cfg);
+        let mut body = String::new();
+        let mut reads: Vec<String> = reads.to_vec();
+        self.rng.shuffle(&mut reads);
+        let init = if !reads.is_empty() && self.rng.pct(60) { reads.remove(0) } else { self.flit() };
+        body.push_str(&format!("{}var acc: f32 = {};\n", ind(1), init));
+        if stage == ST_C && self.rng.pct(20) {
+            self.feat("workgroup_barrier");
+            body.push_str(&format!("{}{};\n", ind(1), self.rng.pick(&["workgroupBarrier()", "storageBarrier()"])));
+        }
+        for r in reads.iter().take(3) {
+            body.push_str(&format!("{}acc += {};\n", ind(1), r));
+        }
+        let n = self.rng.range(cfg.acts.0.max(1), cfg.acts.1 + 1);
+        let acts = self.choose_actions(&ctx, n, must_calls, must_access, 40, cfg.deep_bias);
+        body.push_str(&self.nest(&mut ctx, &acts, 0, 1));
+        if stage == ST_F && self.rng.pct(8) {
+            self.feat("discard");
+            body.push_str(&format!("{}if (acc > 100000.0) {{\n{}discard;\n{}}}\n", ind(1), ind(2), ind(1)));
+        }
+        if stage == ST_F && self.rng.pct(10) {
+            self.feat("derivative");
+            body.push_str(&format!("{}acc += {}(acc);\n", ind(1), self.rng.pick(&["dpdx", "dpdy", "fwidth", "dpdxFine", "dpdyCoarse"])));
+        }
+        let d = self.depth_of_calls(&ctx.called);
+        if d > 1 {
+            self.feat("entry_calls_helper");
+        }
+        for &c in &ctx.called {
+            self.callee_set.insert(c);
+        }
+        body
+    }
+
+    /// Code that builds and returns a value of IO struct `io` from `acc`.
+    fn return_struct(&mut self, io: usize) -> String {
+        let s = self.io[io].sidx;
+        let st = self.structs[s].clone();
+        if self.rng.pct(30) {
+            let vals: Vec<String> = st.members.iter().map(|m| self.splat(&m.ty, "acc")).collect();
+            return format!("{}return {}({});\n", ind(1), st.name, vals.join(", "));
+        }
+        let mut out = format!("{}var outv: {};\n", ind(1), st.name);
+        for m in &st.members {
+            out.push_str(&format!("{}outv.{} = {};\n", ind(1), m.name, self.splat(&m.ty, "acc")));
+        }
+        out.push_str(&format!("{}return outv;\n", ind(1)));
+        out
+    }
+
+    fn gen_vertex_entry(&mut self, cfg: &Cfg, must_calls: &[usize], must_access: &[usize]) {
+        self.lv = 0;
+        self.feat("entry_vertex");
+        let name = self.entry_name(cfg);
+        let mut used_locs: Vec<u32> = Vec::new();
+        let mut used_bi: Vec<&'static str> = Vec::new();
+        let mut params: Vec<Param> = Vec::new();
+        let mut nstructs = self.rng.weighted(&[15, 50, 25, 10]);
+        if self.forced_vin.is_some() {
+            nstructs = nstructs.max(1);
+        }
+        match nstructs {
+            0 => self.feat("vertex_no_struct_input"),
+            1 => self.feat("vertex_one_struct_input"),
+            _ => self.feat("vertex_multi_struct_input"),
+        }
+        for k in 0..nstructs {
+            // reuse a compatible, already declared vertex input struct?
+            let compat: Vec<usize> = (0..self.io.len())
+                .filter(|&i| self.io[i].role == IoRole::VIn)
+                .filter(|&i| self.io[i].locs.iter().all(|l| !used_locs.contains(l)))
+                .filter(|&i| self.io[i].builtins.iter().all(|b| !used_bi.contains(b)))
+                .filter(|&i| !params.iter().any(|p| p.text.ends_with(&format!(": {}", self.structs[self.io[i].sidx].name))))
+                .collect();
+            let io = if k == 0 && self.forced_vin.is_some() {
+                self.feat("struct_vertex_input_and_storage");
+                self.forced_vin.unwrap()
+            } else if !compat.is_empty() && self.rng.pct(45) {
+                self.feat("vertex_input_struct_shared");
+                *self.rng.pick(&compat)
+            } else {
+                let n = self.rng.range(cfg.vin_members.0, cfg.vin_members.1);
+                if used_locs.len() + n > 16 {
+                    break;
+                }
+                self.gen_io_struct(IoRole::VIn, n, &used_locs, &used_bi)
+            };
+            used_locs.extend(self.io[io].locs.iter().copied());
+            used_bi.extend(self.io[io].builtins.iter().copied());
+            let pname = format!("vin{}", k);
+            let reads = self.io_reads(io, &pname);
+            let sname = self.structs[self.io[io].sidx].name.clone();
+            params.push(Param { text: format!("{}: {}", pname, sname), reads });
+        }
+        for b in ["vertex_index", "instance_index"] {
+            if !used_bi.contains(&b) && self.rng.pct(22) {
+                self.feat("vertex_bare_builtin_param");
+                used_bi.push(b);
+                let pname = format!("bi{}", params.len());
+                params.push(Param { text: format!("@builtin({}) {}: u32", b, pname), reads: vec![format!("f32({})", pname)] });
+            }
+        }
+        if used_locs.len() < 16 && self.rng.pct(3) {
+            self.feat("bare_location_param");
+            let l = self.pick_locs(1, 16, &used_locs, false)[0];
+            used_locs.push(l);
+            let pname = format!("bi{}", params.len());
+            params.push(Param { text: format!("@location({}) {}: vec4<f32>", l, pname), reads: vec![format!("{}.x", pname)] });
+        }
+        self.rng.shuffle(&mut params);
+        let reads: Vec<String> = params.iter().flat_map(|p| p.reads.iter().cloned()).collect();
+        let mut body = self.entry_body(cfg, ST_V, &reads, must_calls, must_access);
+        let ret;
+        if self.rng.pct(75) {
+            self.feat("vertex_struct_output");
+            let outs: Vec<usize> = (0..self.io.len()).filter(|&i| self.io[i].role == IoRole::VOut).collect();
+            let io = if !outs.is_empty() && self.rng.pct(40) {
+                *self.rng.pick(&outs)
+            } else {
+                let n = self.rng.range(0, 4);
+                self.gen_io_struct(IoRole::VOut, n, &[], &[])
+            };
+            ret = format!(" -> {}", self.structs[self.io[io].sidx].name);
+            body.push_str(&self.return_struct(io));
+        } else {
+            self.feat("vertex_bare_position_output");
+            let inv = if self.rng.pct(10) { " @invariant" } else { "" };
+            ret = format!(" -> @builtin(position){} vec4<f32>", inv);
+            body.push_str(&format!("{}return vec4<f32>(acc, 0.0, 0.0, 1.0);\n", ind(1)));
+        }
+        let ptxt: Vec<String> = params.iter().map(|p| p.text.clone()).collect();
+        self.entries.push(format!("@vertex\nfn {}({}){} {{\n{}}}\n", name, ptxt.join(", "), ret, body));
+    }
+
+    fn gen_fragment_entry(&mut self, cfg: &Cfg, must_calls: &[usize], must_access: &[usize]) {
+        self.lv = 0;
+        self.feat("entry_fragment");
+        let name = self.entry_name(cfg);
+        let mut used_locs: Vec<u32> = Vec::new();
+        let mut used_bi: Vec<&'static str> = Vec::new();
+        let mut params: Vec<Param> = Vec::new();
+        match self.rng.weighted(&[22, 33, 22, 23]) {
+            0 => self.feat("fragment_no_input"),
+            1 => {
+                // the output struct of a vertex entry (position builtin is a legal fragment input)
+                let outs: Vec<usize> = (0..self.io.len()).filter(|&i| matches!(self.io[i].role, IoRole::VOut | IoRole::FIn)).collect();
+                let io = if !outs.is_empty() && self.rng.pct(70) {
+                    self.feat("fragment_input_shared_struct");
+                    *self.rng.pick(&outs)
+                } else {
+                    let n = self.rng.range(0, 4);
+                    self.gen_io_struct(IoRole::FIn, n, &[], &[])
+                };
+                self.feat("fragment_struct_input");
+                used_locs.extend(self.io[io].locs.iter().copied());
+                used_bi.extend(self.io[io].builtins.iter().copied());
+                let reads = self.io_reads(io, "fin0");
+                let sname = self.structs[self.io[io].sidx].name.clone();
+                params.push(Param { text: format!("fin0: {}", sname), reads });
+            }
+            2 => {
+                self.feat("fragment_struct_input");
+                let n = self.rng.range(1, 5);
+                let io = self.gen_io_struct(IoRole::FIn, n, &[], &[]);
+                used_locs.extend(self.io[io].locs.iter().copied());
+                used_bi.extend(self.io[io].builtins.iter().copied());
+                let reads = self.io_reads(io, "fin0");
+                let sname = self.structs[self.io[io].sidx].name.clone();
+                params.push(Param { text: format!("fin0: {}", sname), reads });
+            }
+            _ => {
+                self.feat("fragment_bare_location_params");
+                let n = self.rng.range(1, 3);
+                let dense = self.rng.pct(50);
+                let locs = self.pick_locs(n, 16, &used_locs, dense);
+                for l in locs {
+                    used_locs.push(l);
+                    let ty = self.loc_ty(75);
+                    let ip = self.interp(&ty, true);
+                    let pname = format!("bi{}", params.len());
+                    let r = self.read_f32(&ty, &pname, false);
+                    params.push(Param { text: format!("@location({}) {}{}: {}", l, ip, pname, self.ts(&ty)), reads: vec![r] });
+                }
+            }
+        }
+        let bis: [(&'static str, &str, u32); 4] = [
+            ("position", "vec4<f32>", 20),
+            ("front_facing", "bool", 10),
+            ("sample_index", "u32", 8),
+            ("sample_mask", "u32", 8),
+        ];
+        for (b, t, p) in bis {
+            if !used_bi.contains(&b) && self.rng.pct(p) {
+                self.feat("fragment_bare_builtin_param");
+                used_bi.push(b);
+                let pname = format!("bi{}", params.len());
+                let r = match t {
+                    "vec4<f32>" => format!("{}.x", pname),
+                    "bool" => format!("select(0.0, 1.0, {})", pname),
+                    _ => format!("f32({})", pname),
+                };
+                params.push(Param { text: format!("@builtin({}) {}: {}", b, pname, t), reads: vec![r] });
+            }
+        }
+        self.rng.shuffle(&mut params);
+        let reads: Vec<String> = params.iter().flat_map(|p| p.reads.iter().cloned()).collect();
+        let mut body = self.entry_body(cfg, ST_F, &reads, must_calls, must_access);
+        let ret;
+        match self.rng.weighted(&[14, 34, 8, 44]) {
+            0 => {
+                self.feat("fragment_no_output");
+                ret = String::new();
+            }
+            1 => {
+                self.feat("fragment_bare_location_output");
+                let k = if self.rng.pct(75) { 0 } else { self.rng.range(1, 7) };
+                if k != 0 {
+                    self.feat("sparse_frag_locations");
+                }
+                let ty = if self.rng.pct(80) { Ty::Vec(4, Sc::F32) } else { self.loc_ty(50) };
+                ret = format!(" -> @location({}) {}", k, self.ts(&ty));
+                body.push_str(&format!("{}return {};\n", ind(1), self.splat(&ty, "acc")));
+            }
+            2 => {
+                self.feat("fragment_bare_frag_depth_output");
+                ret = " -> @builtin(frag_depth) f32".to_string();
+                body.push_str(&format!("{}return acc;\n", ind(1)));
+            }
+            _ => {
+                self.feat("fragment_struct_output");
+                let outs: Vec<usize> = (0..self.io.len()).filter(|&i| self.io[i].role == IoRole::FOut).collect();
+                let io = if !outs.is_empty() && self.rng.pct(35) {
+                    *self.rng.pick(&outs)
+                } else {
+                    let n = self.rng.range(0, 4);
+                    self.gen_io_struct(IoRole::FOut, n, &[], &[])
+                };
+                let mut l = self.io[io].locs.clone();
+                l.sort();
+                if l.iter().enumerate().any(|(i, &x)| x != i as u32) {
+                    self.feat("sparse_frag_locations");
+                }
+                if !self.io[io].builtins.is_empty() {
+                    self.feat("fragment_output_builtin_member");
+                }
+                ret = format!(" -> {}", self.structs[self.io[io].sidx].name);
+                body.push_str(&self.return_struct(io));
+            }
+        }
+        let ptxt: Vec<String> = params.iter().map(|p| p.text.clone()).collect();
+        self.entries.push(format!("@fragment\nfn {}({}){} {{\n{}}}\n", name, ptxt.join(", "), ret, body));
+    }
+
+    fn gen_compute_entry(&mut self, cfg: &Cfg, must_calls: &[usize], must_access: &[usize]) {
+        self.lv = 0;
+        self.feat("entry_compute");
+        let name = self.entry_name(cfg);
+        let mut used_bi: Vec<&'static str> = Vec::new();
+        let mut params: Vec<Param> = Vec::new();
+        if self.rng.pct(20) {
+            self.feat("compute_struct_input");
+            let ins: Vec<usize> = (0..self.io.len()).filter(|&i| self.io[i].role == IoRole::CIn).collect();
+            let io = if !ins.is_empty() && self.rng.pct(50) { *self.rng.pick(&ins) } else { self.gen_io_struct(IoRole::CIn, 0, &[], &[]) };
+            used_bi.extend(self.io[io].builtins.iter().copied());
+            let reads = self.io_reads(io, "cin0");
+            let sname = self.structs[self.io[io].sidx].name.clone();
+            params.push(Param { text: format!("cin0: {}", sname), reads });
+        }
+        let bis: [(&'static str, bool, u32); 5] = [
+            ("global_invocation_id", true, 55),
+            ("local_invocation_id", true, 20),
+            ("local_invocation_index", false, 25),
+            ("workgroup_id", true, 20),
+            ("num_workgroups", true, 12),
+        ];
+        for (b, is_vec, p) in bis {
+            if !used_bi.contains(&b) && self.rng.pct(p) {
+                self.feat("compute_builtin_param");
+                used_bi.push(b);
+                let pname = format!("bi{}", params.len());
+                let (t, r) = if is_vec {
+                    ("vec3<u32>", format!("f32({}.{})", pname, COMPS[self.rng.below(3)]))
+                } else {
+                    ("u32", format!("f32({})", pname))
+                };
+                params.push(Param { text: format!("@builtin({}) {}: {}", b, pname, t), reads: vec![r] });
+            }
+        }
+        self.rng.shuffle(&mut params);
+        // workgroup size
+        let ndim = self.rng.weighted(&[45, 30, 25]) + 1;
+        let int_consts: Vec<String> = self
+            .consts
+            .iter()
+            .filter(|c| matches!(c.kind, CKind::AInt | CKind::U32 | CKind::I32) && matches!(c.small, Some(v) if v >= 1 && v <= 16))
+            .map(|c| c.name.clone())
+            .collect();
+        let u32_over: Vec<String> = self.overrides.iter().filter(|o| o.sc == Sc::U32 && o.has_default).map(|o| o.name.clone()).collect();
+        let mut dims = Vec::new();
+        for d in 0..ndim {
+            if !int_consts.is_empty() && self.rng.pct(25) {
+                self.feat("workgroup_size_const");
+                dims.push(self.rng.pick(&int_consts).clone());
+            } else if !u32_over.is_empty() && self.rng.pct(10) {
+                self.feat("workgroup_size_override");
+                dims.push(self.rng.pick(&u32_over).clone());
+            } else {
+                let v = if d == 0 { *self.rng.pick(&[1, 1, 2, 4, 8, 16, 32, 64, 128, 256]) } else { *self.rng.pick(&[1, 1, 2, 4, 8]) };
+                dims.push(if self.rng.pct(10) { format!("{}u", v) } else { format!("{}", v) });
+            }
+        }
+        self.feat(match ndim {
+            1 => "workgroup_size_1d",
+            2 => "workgroup_size_2d",
+            _ => "workgroup_size_3d",
+        });
+        let reads: Vec<String> = params.iter().flat_map(|p| p.reads.iter().cloned()).collect();
+        let mut body = self.entry_body(cfg, ST_C, &reads, must_calls, must_access);
+        // make the result observable when a writable buffer exists
+        let rw: Vec<usize> = self
+            .globals
+            .iter()
+            .enumerate()
+            .filter(|(_, g)| !g.no_use && matches!(g.kind, GKind::Buffer { space: Space::StorageRW, .. }))
+            .map(|(i, _)| i)
+            .collect();
+        if !rw.is_empty() && self.rng.pct(50) {
+            let g = *self.rng.pick(&rw);
+            self.globals[g].uses += 1;
+            if let GKind::Buffer { ty, .. } = self.globals[g].kind.clone() {
+                let gname = self.globals[g].name.clone();
+                let w = self.write_leaf(&ty, &gname, "acc");
+                body.push_str(&format!("{}{}\n", ind(1), w));
+            }
+        }
+        let ptxt: Vec<String> = params.iter().map(|p| p.text.clone()).collect();
+        let attr = if self.rng.pct(15) {
+            format!("@workgroup_size({}) @compute", dims.join(", "))
+        } else {
+            format!("@compute @workgroup_size({})", dims.join(", "))
+        };
+        self.entries.push(format!("{}\nfn {}({}) {{\n{}}}\n", attr, name, ptxt.join(", "), body));
+    }
+}
+
+// ---------------------------------------------------------------------------------------------
+// Module assembly and the common builder
+// ---------------------------------------------------------------------------------------------
+
+impl Gen {
+    fn assemble(&mut self) -> String {
+        let mut structs: Vec<String> = (0..self.structs.len()).map(|i| self.render_struct(i)).collect();
+        let mut consts: Vec<String> = self.consts.iter().map(|c| c.text.clone()).collect();
+        let mut overrides: Vec<String> = self.overrides.iter().map(|c| c.text.clone()).collect();
+        let mut globals: Vec<String> = (0..self.globals.len()).map(|i| self.render_global(i)).collect();
+        let extra = std::mem::take(&mut self.extra_items);
+        let fns = self.entries.clone();
+        let mut out = String::new();
+        match self.rng.weighted(&[45, 30, 25]) {
+            0 => {
+                self.feat("decl_order_grouped");
+                if self.rng.pct(50) {
+                    self.rng.shuffle(&mut globals);
+                }
+                let mut groups: Vec<Vec<String>> = vec![structs, consts, overrides, globals, extra];
+                if self.rng.pct(30) {
+                    self.rng.shuffle(&mut groups);
+                }
+                for g in groups {
+                    for s in g {
+                        out.push_str(&s);
+                    }
+                    out.push('\n');
+                }
+                for f in fns {
+                    out.push_str(&f);
+                    out.push('\n');
+                }
+            }
+            1 => {
+                self.feat("decl_order_shuffled");
+                let mut all: Vec<String> = Vec::new();
+                all.append(&mut structs);
+                all.append(&mut consts);
+                all.append(&mut overrides);
+                all.append(&mut globals);
+                all.extend(extra);
+                self.rng.shuffle(&mut all);
+                for s in all {
+                    out.push_str(&s);
+                }
+                out.push('\n');
+                for f in fns {
+                    out.push_str(&f);
+                    out.push('\n');
+                }
+            }
+            _ => {
+                // declarations interleaved with functions (functions keep their relative order;
+                // module-scope declarations may be used before they are declared)
+                self.feat("decl_order_interleaved");
+                let mut all: Vec<String> = Vec::new();
+                all.append(&mut structs);
+                all.append(&mut consts);
+                all.append(&mut overrides);
+                all.append(&mut globals);
+                all.extend(extra);
+                self.rng.shuffle(&mut all);
+                let nf = fns.len();
+                let mut slots: Vec<Vec<String>> = (0..=nf).map(|_| Vec::new()).collect();
+                for s in all {
+                    let k = self.rng.below(nf + 1);
+                    slots[k].push(s);
+                }
+                for (k, f) in fns.iter().enumerate() {
+                    for s in &slots[k] {
+                        out.push_str(s);
+                    }
+                    out.push_str(f);
+                    out.push('\n');
+                }
+                for s in &slots[nf] {
+                    out.push_str(s);
+                }
+            }
+        }
+        out
+    }
+
+    /// Helper DAG shapes (chain / diamond / fan-out / shared) for the `callgraph` profile.
+    fn gen_shapes(&mut self, cfg: &Cfg) {
+        let res: Vec<usize> = self.usable_globals(ST_ALL);
+        let nshapes = self.rng.range(1, 3);
+        let pick_mask = |g: &mut Gen| -> u8 {
+            match g.rng.below(10) {
+                0..=5 => ST_ALL,
+                6 => ST_F,
+                7 => ST_C,
+                8 => ST_V | ST_F,
+                _ => ST_V,
+            }
+        };
+        for _ in 0..nshapes {
+            let mask = pick_mask(self);
+            let touch = |g: &mut Gen| -> Vec<usize> {
+                if res.is_empty() {
+                    Vec::new()
+                } else {
+                    let k = g.rng.range(1, 2.min(res.len()));
+                    (0..k).map(|_| *g.rng.pick(&res)).collect()
+                }
+            };
+            match self.rng.below(5) {
+                0 => {
+                    self.feat("shape_chain");
+                    let len = self.rng.range(2, cfg.call_depth_cap.min(12));
+                    let t = touch(self);
+                    let mut prev = self.gen_helper(cfg, &[], &t, Some(mask));
+                    for _ in 1..len {
+                        let calls = if self.rng.pct(30) { vec![prev, prev] } else { vec![prev] };
+                        prev = self.gen_helper(cfg, &calls, &[], Some(mask));
+                    }
+                }
+                1 => {
+                    self.feat("shape_diamond");
+                    let levels = self.rng.range(2, 5);
+                    let ta = touch(self);
+                    let tb = touch(self);
+                    let mut a = self.gen_helper(cfg, &[], &ta, Some(mask));
+                    let mut b = self.gen_helper(cfg, &[], &tb, Some(mask));
+                    for _ in 1..levels {
+                        let na = self.gen_helper(cfg, &[a, b], &[], Some(mask));
+                        let nb = self.gen_helper(cfg, &[a, b], &[], Some(mask));
+                        a = na;
+                        b = nb;
+                    }
+                }
+                2 => {
+                    self.feat("shape_fanout");
+                    let w = self.rng.range(2, 6);
+                    let t = touch(self);
+                    let shared = self.gen_helper(cfg, &[], &t, Some(mask));
+                    let mut tops = Vec::new();
+                    for _ in 0..w {
+                        tops.push(self.gen_helper(cfg, &[shared], &[], Some(mask)));
+                    }
+                    if self.rng.pct(50) {
+                        // one collector calling every branch
+                        self.gen_helper(cfg, &tops, &[], Some(mask));
+                    }
+                }
+                3 => {
+                    self.feat("shape_shared_helper");
+                    let t = touch(self);
+                    let shared = self.gen_helper(cfg, &[], &t, Some(ST_ALL));
+                    let n = self.rng.range(2, 4);
+                    for _ in 0..n {
+                        let m = pick_mask(self);
+                        let t2 = if self.rng.pct(50) { touch(self) } else { Vec::new() };
+                        self.gen_helper(cfg, &[shared], &t2, Some(m));
+                    }
+                }
+                _ => {
+                    self.feat("shape_random_dag");
+                    let n = self.rng.range(3, 8);
+                    let first = self.funcs.len();
+                    for _ in 0..n {
+                        let have = self.funcs.len() - first;
+                        let mut calls = Vec::new();
+                        if have > 0 {
+                            for _ in 0..self.rng.range(0, 3.min(have)) {
+                                calls.push(first + self.rng.below(have));
+                            }
+                        }
+                        let t = if calls.is_empty() || self.rng.pct(30) { touch(self) } else { Vec::new() };
+                        self.gen_helper(cfg, &calls, &t, None);
+                    }
+                }
+            }
+        }
+    }
+
+    fn build_common(&mut self, cfg: &Cfg) -> String {
+        self.allow_f64 = self.rng.pct(cfg.f64_pct);
+        self.struct_roles = cfg.struct_roles;
+        self.kw_budget = self.rng.permille(cfg.rust_kw_permille);
+        self.clash_budget = self.rng.permille(cfg.case_clash_permille);
+        if self.rng.pct(10) {
+            self.short_types = true;
+            self.feat("short_type_names");
+        }
+        // entry plan first: some declarations only make sense for certain stages
+        let mut nv = self.rng.range(cfg.vertex.0, cfg.vertex.1);
+        let mut nf = self.rng.range(cfg.fragment.0, cfg.fragment.1);
+        let mut nc = self.rng.range(cfg.compute.0, cfg.compute.1);
+        if nv + nf + nc == 0 {
+            if cfg.allow_no_entry && self.rng.pct(30) {
+                self.feat("no_entry_points");
+            } else {
+                let mut opts = Vec::new();
+                if cfg.vertex.1 > 0 {
+                    opts.push(0);
+                }
+                if cfg.fragment.1 > 0 {
+                    opts.push(1);
+                }
+                if cfg.compute.1 > 0 {
+                    opts.push(2);
+                }
+                match *self.rng.pick(&opts) {
+                    0 => nv = 1,
+                    1 => nf = 1,
+                    _ => nc = 1,
+                }
+            }
+        }
+        for _ in 0..self.rng.range(cfg.consts.0, cfg.consts.1) {
+            self.gen_const();
+        }
+        for _ in 0..self.rng.range(cfg.overrides.0, cfg.overrides.1) {
+            self.gen_override();
+        }
+        for _ in 0..self.rng.range(cfg.buffers.0, cfg.buffers.1) {
+            self.gen_buffer(cfg);
+        }
+        for _ in 0..self.rng.range(cfg.textures.0, cfg.textures.1) {
+            self.gen_texture();
+        }
+        self.gen_samplers();
+        for _ in 0..self.rng.range(cfg.privates.0, cfg.privates.1) {
+            self.gen_private(cfg);
+        }
+        if nc > 0 {
+            for _ in 0..self.rng.range(cfg.workgroups.0, cfg.workgroups.1) {
+                self.gen_workgroup(cfg);
+            }
+        }
+        if self.rng.pct(cfg.push_const_pct) {
+            self.gen_push_const(cfg);
+        }
+        if cfg.struct_roles && nv > 0 && self.rng.pct(35) {
+            // a struct that is both a vertex input and the element type of a storage buffer
+            let n = self.rng.range(1, 5);
+            let io = self.gen_io_struct(IoRole::VIn, n, &[], &[]);
+            self.forced_vin = Some(io);
+            let s = self.io[io].sidx;
+            let name = self.fresh(0);
+            let ty = if self.rng.pct(60) { Ty::RtArray(Box::new(Ty::Struct(s))) } else { Ty::Struct(s) };
+            self.feat("var_storage_read");
+            self.push_global(name, GKind::Buffer { space: Space::StorageRead, ty });
+        }
+        for _ in 0..self.rng.range(cfg.structs_extra.0, cfg.structs_extra.1) {
+            let mut req = Req::PRIVATE;
+            req.f64_ok = self.allow_f64;
+            if self.rng.pct(55) {
+                let s = self.gen_struct(req, cfg.struct_depth.min(2), cfg.struct_members, false);
+                self.local_structs.push(s);
+            } else {
+                self.feat("struct_unused");
+                let rt = self.rng.pct(15);
+                let r = if rt { Req::STORAGE_RW } else { req };
+                self.gen_struct(r, cfg.struct_depth.min(2), cfg.struct_members, rt);
+            }
+        }
+        // some resources are declared but never referenced
+        let nres = self.globals.len();
+        for i in 0..nres {
+            if self.rng.pct(8) {
+                self.feat("unused_global");
+                self.globals[i].no_use = true;
+            }
+        }
+        if self.kw_budget && !self.globals.is_empty() {
+            self.kw_budget = false;
+            let kw = *self.rng.pick(RUST_KW_NAMES);
+            if self.claim(kw) {
+                self.feat("rust_keyword_name");
+                let i = self.rng.below(self.globals.len());
+                self.globals[i].name = kw.to_string();
+            }
+        }
+        self.assign_bindings(cfg.max_groups);
+
+        // functions: helpers and entry points, entries mostly (not always) last
+        let nh = self.rng.range(cfg.helpers.0, cfg.helpers.1);
+        let mut sched: Vec<u8> = Vec::new(); // 0 helper, 1 vertex, 2 fragment, 3 compute
+        if !cfg.shapes {
+            for _ in 0..nh {
+                sched.push(0);
+            }
+        }
+        let mut ents: Vec<u8> = Vec::new();
+        ents.extend(std::iter::repeat(1).take(nv));
+        ents.extend(std::iter::repeat(2).take(nf));
+        ents.extend(std::iter::repeat(3).take(nc));
+        self.rng.shuffle(&mut ents);
+        for e in ents {
+            if self.rng.pct(75) || sched.is_empty() {
+                sched.push(e);
+            } else {
+                let k = self.rng.range(1, sched.len());
+                sched.insert(k, e);
+                self.feat("entry_between_helpers");
+            }
+        }
+        if cfg.shapes {
+            self.gen_shapes(cfg);
+            // a few extra random helpers, some of them never called by anything
+            for _ in 0..self.rng.range(0, 2) {
+                self.gen_helper(cfg, &[], &[], None);
+            }
+        }
+        for s in sched {
+            let stage = match s {
+                1 => ST_V,
+                2 => ST_F,
+                _ => ST_C,
+            };
+            let mut must: Vec<usize> = Vec::new();
+            if s != 0 && cfg.shapes {
+                // each entry reaches its own subset of the DAG roots
+                let roots: Vec<usize> = (0..self.funcs.len())
+                    .filter(|f| !self.callee_set.contains(f) && self.funcs[*f].mask & stage != 0)
+                    .collect();
+                for r in &roots {
+                    if self.rng.pct(50) {
+                        must.push(*r);
+                    }
+                }
+                if must.is_empty() && !roots.is_empty() {
+                    must.push(*self.rng.pick(&roots));
+                }
+                // sometimes also jump into the middle of a shape
+                let mids: Vec<usize> = (0..self.funcs.len()).filter(|f| self.funcs[*f].mask & stage != 0).collect();
+                if !mids.is_empty() && self.rng.pct(25) {
+                    must.push(*self.rng.pick(&mids));
+                }
+            }
+            match s {
+                0 => {
+                    self.gen_helper(cfg, &[], &[], None);
+                }
+                1 => self.gen_vertex_entry(cfg, &must, &[]),
+                2 => self.gen_fragment_entry(cfg, &must, &[]),
+                _ => self.gen_compute_entry(cfg, &must, &[]),
+            }
+        }
+        // reachability bookkeeping for the histogram
+        let never_called = (0..self.funcs.len()).filter(|f| !self.callee_set.contains(f)).count();
+        if never_called > 0 {
+            self.feat("unreachable_helper");
+        }
+        if self.globals.iter().any(|g| g.uses == 0 && matches!(g.kind, GKind::Buffer { .. } | GKind::Tex(_) | GKind::Sampler(_))) {
+            self.feat("unused_binding");
+        }
+        self.assemble()
+    }
+}
+
+// ---------------------------------------------------------------------------------------------
+// Profiles
+// ---------------------------------------------------------------------------------------------
+
+fn cfg_for(profile: &str) -> Cfg {
+    let mut c = Cfg::base();
+    match profile {
+        "general" => {
+            c.textures = (0, 4);
+            c.helpers = (0, 12);
+            c.acts = (2, 6);
+            c.f64_pct = 12;
+            c.workgroups = (0, 2);
+            c.rust_kw_permille = 10;
+            c.case_clash_permille = 12;
+        }
+        "callgraph" => {
+            c.shapes = true;
+            c.simple_buffers = true;
+            c.buffers = (2, 6);
+            c.textures = (0, 1);
+            c.privates = (0, 1);
+            c.workgroups = (0, 1);
+            c.push_const_pct = 5;
+            c.consts = (0, 1);
+            c.overrides = (0, 1);
+            c.structs_extra = (0, 0);
+            c.acts = (0, 2);
+            c.nest_pct = 55;
+            c.vertex = (0, 1);
+            c.fragment = (0, 1);
+            c.compute = (0, 1);
+            c.f64_pct = 0;
+        }
+        "structs" => {
+            c.struct_roles = true;
+            c.struct_depth = 4;
+            c.struct_members = (1, 8);
+            c.structs_extra = (1, 3);
+            c.buffers = (2, 5);
+            c.textures = (0, 0);
+            c.privates = (0, 2);
+            c.workgroups = (0, 2);
+            c.push_const_pct = 15;
+            c.helpers = (0, 2);
+            c.consts = (0, 1);
+            c.overrides = (0, 0);
+            c.vertex = (0, 1);
+            c.fragment = (0, 1);
+            c.compute = (0, 1);
+            c.f64_pct = 12;
+            c.acts = (2, 6);
+        }
+        "vertex" => {
+            c.vertex = (1, 3);
+            c.fragment = (0, 1);
+            c.compute = (0, 0);
+            c.vin_members = (1, 8);
+            c.buffers = (0, 2);
+            c.textures = (0, 1);
+            c.privates = (0, 0);
+            c.workgroups = (0, 0);
+            c.push_const_pct = 5;
+            c.helpers = (0, 2);
+            c.consts = (0, 1);
+            c.overrides = (0, 1);
+            c.structs_extra = (0, 0);
+            c.simple_buffers = true;
+            c.acts = (0, 2);
+            c.f64_pct = 0;
+        }
+        "consts" => {
+            c.consts = (3, 14);
+            c.overrides = (0, 6);
+            c.buffers = (0, 2);
+            c.textures = (0, 0);
+            c.helpers = (0, 3);
+            c.simple_buffers = true;
+            c.structs_extra = (0, 0);
+            c.privates = (0, 1);
+            c.workgroups = (0, 1);
+            c.f64_pct = 25;
+            c.acts = (2, 6);
+        }
+        "entries" => {
+            c.allow_no_entry = true;
+            c.vertex = (0, 3);
+            c.fragment = (0, 3);
+            c.compute = (0, 3);
+            c.buffers = (0, 2);
+            c.textures = (0, 1);
+            c.helpers = (0, 2);
+            c.simple_buffers = true;
+            c.structs_extra = (0, 0);
+            c.consts = (0, 3);
+            c.overrides = (0, 2);
+            c.acts = (0, 2);
+            c.rust_kw_permille = 10;
+            c.case_clash_permille = 12;
+            c.f64_pct = 0;
+        }
+        "unicode" => {
+            c.buffers = (1, 2);
+            c.textures = (0, 1);
+            c.helpers = (0, 2);
+            c.structs_extra = (0, 1);
+            c.struct_depth = 1;
+            c.consts = (0, 2);
+            c.overrides = (0, 1);
+            c.vertex = (0, 1);
+            c.fragment = (0, 1);
+            c.compute = (0, 1);
+            c.acts = (1, 3);
+            c.f64_pct = 0;
+        }
+        "scale" => {
+            c.helpers = (30, 150);
+            c.call_depth_cap = 14;
+            c.deep_bias = 85;
+            c.acts = (1, 3);
+            c.nest_pct = 25;
+            c.buffers = (8, 40);
+            c.textures = (0, 6);
+            c.struct_members = (5, 60);
+            c.struct_depth = 2;
+            c.structs_extra = (0, 3);
+            c.consts = (0, 10);
+            c.overrides = (0, 6);
+            c.max_groups = 4;
+            c.vertex = (0, 2);
+            c.fragment = (0, 2);
+            c.compute = (0, 2);
+        }
+        _ => {}
+    }
+    c
+}
+
+pub fn generate(profile: &str, seed: u64, index: u64) -> GenCase {
+    let mut g = Gen::new(profile, seed, index);
+    let wgsl = match profile {
+        "bindings" => g.build_bindings(),
+        "textures" => g.build_textures(),
+        "unicode" => {
+            g.unicode_pct = 45;
+            let cfg = cfg_for("unicode");
+            let base = g.build_common(&cfg);
+            g.unicode_decorate(&base)
+        }
+        "scale" => {
+            let mut cfg = cfg_for("scale");
+            // not every dimension is large in every case
+            match g.rng.below(4) {
+                0 => {
+                    g.feat("scale_many_functions");
+                    cfg.buffers = (2, 8);
+                    cfg.struct_members = (1, 8);
+                }
+                1 => {
+                    g.feat("scale_many_bindings");
+                    cfg.helpers = (2, 12);
+                    cfg.buffers = (20, 40);
+                    cfg.struct_members = (1, 5);
+                    cfg.simple_buffers = g.rng.pct(50);
+                    if g.rng.pct(60) {
+                        cfg.max_groups = 1;
+                        g.feat("scale_one_group");
+                    }
+                }
+                2 => {
+                    g.feat("scale_big_structs");
+                    cfg.helpers = (2, 12);
+                    cfg.buffers = (2, 6);
+                    cfg.struct_members = (30, 60);
+                }
+                _ => {
+                    g.feat("scale_everything");
+                    cfg.helpers = (30, 90);
+                    cfg.buffers = (8, 24);
+                    cfg.struct_members = (5, 30);
+                }
+            }
+            g.build_common(&cfg)
+        }
+        p => {
+            if p == "general" {
+                g.unicode_pct = 6;
+            } else if p != "callgraph" {
+                g.unicode_pct = 2;
+            }
+            let cfg = cfg_for(p);
+            g.build_common(&cfg)
+        }
+    };
+    g.finish(wgsl)
+}
+
+impl Gen {
+    // -----------------------------------------------------------------------------------------
+    // `bindings` profile: (@group, @binding) multisets incl. gaps and duplicates
+    // -----------------------------------------------------------------------------------------
+    fn build_bindings(&mut self) -> String {
+        let cfg = {
+            let mut c = Cfg::base();
+            c.simple_buffers = true;
+            c.acts = (0, 1);
+            c.nest_pct = 20;
+            c
+        };
+        let n = self.rng.range(1, 6);
+        for _ in 0..n {
+            match self.rng.below(8) {
+                0 => {
+                    let name = self.fresh(0);
+                    self.push_global(name, GKind::Tex(Tex::Sampled { dim: Dim::D2, sc: Sc::F32 }));
+                }
+                1 => {
+                    let name = self.fresh(0);
+                    self.push_global(name, GKind::Sampler(false));
+                }
+                2 => {
+                    let name = self.fresh(0);
+                    self.push_global(name, GKind::Tex(Tex::Storage { dim: Dim::D2, fmt: "rgba8unorm", sc: Sc::F32, access: "write" }));
+                }
+                _ => {
+                    self.gen_buffer(&cfg);
+                }
+            }
+        }
+        let mode = self.rng.weighted(&[40, 20, 20, 20]);
+        let (gap, dup) = match mode {
+            0 => (false, false),
+            1 => (true, false),
+            2 => (false, true),
+            _ => (true, true),
+        };
+        // group numbers
+        let ngroups = self.rng.range(1, n.min(4));
+        let mut group_ids: Vec<u32> = (0..ngroups as u32).collect();
+        if gap {
+            loop {
+                group_ids.clear();
+                let pool: Vec<u32> = if self.rng.pct(20) {
+                    self.feat("huge_group");
+                    vec![0, 1, 2, 3, 4294967295, 2147483648, 7]
+                } else {
+                    vec![0, 1, 2, 3, 4, 5]
+                };
+                let mut p = pool.clone();
+                self.rng.shuffle(&mut p);
+                p.truncate(ngroups);
+                p.sort();
+                group_ids = p;
+                // a gap = not exactly {0..k-1}
+                if group_ids.iter().enumerate().any(|(i, &g)| g != i as u32) {
+                    break;
+                }
+            }
+        }
+        let mut order: Vec<usize> = (0..n).collect();
+        self.rng.shuffle(&mut order);
+        let mut used: Vec<(u32, u32)> = Vec::new();
+        for (k, &gi) in order.iter().enumerate() {
+            let grp = if k < group_ids.len() { group_ids[k] } else { *self.rng.pick(&group_ids) };
+            let mut b;
+            loop {
+                b = match self.rng.below(25) {
+                    0 => {
+                        self.feat("huge_binding");
+                        *self.rng.pick(&[4294967295u32, 4000000000, 2147483648, 65536])
+                    }
+                    _ => self.rng.below(4) as u32,
+                };
+                if !used.contains(&(grp, b)) {
+                    break;
+                }
+            }
+            used.push((grp, b));
+            self.globals[gi].group = grp;
+            self.globals[gi].binding = b;
+        }
+        let mut has_dup = false;
+        if dup && n >= 2 {
+            // copy the (group, binding) of one variable onto another one
+            let a = self.rng.below(n);
+            let mut b = self.rng.below(n);
+            if a == b {
+                b = (a + 1) % n;
+            }
+            self.globals[b].group = self.globals[a].group;
+            self.globals[b].binding = self.globals[a].binding;
+            has_dup = true;
+            if self.rng.pct(25) && n >= 3 {
+                let c = (b + 1) % n;
+                if c != a {
+                    self.globals[c].group = self.globals[a].group;
+                    self.globals[c].binding = self.globals[a].binding;
+                    self.feat("dup_triple");
+                }
+            }
+        }
+        // re-evaluate what we actually produced
+        let mut gs: Vec<u32> = self.globals.iter().map(|g| g.group).collect();
+        gs.sort();
+        gs.dedup();
+        let has_gap = gs.iter().enumerate().any(|(i, &g)| g != i as u32);
+        if has_gap {
+            self.feat("gap");
+        }
+        if has_dup {
+            self.feat("dup");
+        }
+        if !has_gap && !has_dup {
+            self.feat("dense");
+        }
+        // usage: each variable is used with 60 %; entries of random stages
+        for i in 0..n {
+            if self.rng.pct(40) {
+                self.globals[i].no_use = true;
+                self.feat("unused_binding");
+            }
+        }
+        let nent = self.rng.range(1, 2);
+        if self.rng.pct(30) {
+            self.gen_helper(&cfg, &[], &[], Some(ST_ALL));
+        }
+        for _ in 0..nent {
+            let usable: Vec<usize> = self.usable_globals(ST_ALL);
+            let must: Vec<usize> = usable.iter().copied().filter(|_| self.rng.pct(70)).collect();
+            match self.rng.below(3) {
+                0 => self.gen_vertex_entry(&cfg, &[], &must),
+                1 => self.gen_fragment_entry(&cfg, &[], &must),
+                _ => self.gen_compute_entry(&cfg, &[], &must),
+            }
+        }
+        self.assemble()
+    }
+
+    // -----------------------------------------------------------------------------------------
+    // `textures` profile
+    // -----------------------------------------------------------------------------------------
+    fn build_textures(&mut self) -> String {
+        let mut cfg = Cfg::base();
+        cfg.simple_buffers = true;
+        cfg.acts = (0, 1);
+        cfg.nest_pct = 25;
+        cfg.call_depth_cap = 4;
+        let nt = self.rng.range(2, 7);
+        for _ in 0..nt {
+            self.gen_texture();
+        }
+        // samplers of both kinds so that every sampling builtin is available
+        let need_plain = self.globals.iter().any(|g| matches!(g.kind, GKind::Tex(Tex::Sampled { .. }) | GKind::Tex(Tex::Depth { .. })));
+        let need_cmp = self.globals.iter().any(|g| matches!(g.kind, GKind::Tex(Tex::Depth { .. })));
+        if need_plain {
+            self.feat("sampler");
+            let name = self.fresh(0);
+            self.push_global(name, GKind::Sampler(false));
+        }
+        if need_cmp {
+            self.feat("sampler_comparison");
+            let name = self.fresh(0);
+            self.push_global(name, GKind::Sampler(true));
+        }
+        if self.rng.pct(30) {
+            self.gen_buffer(&cfg);
+        }
+        self.assign_bindings(4);
+        let texs: Vec<usize> = (0..self.globals.len()).filter(|&i| matches!(self.globals[i].kind, GKind::Tex(_))).collect();
+        // optional helpers touching textures
+        for _ in 0..self.rng.range(0, 2) {
+            let t: Vec<usize> = texs.iter().copied().filter(|_| self.rng.pct(30)).collect();
+            self.gen_helper(&cfg, &[], &t, None);
+        }
+        let nent = self.rng.range(1, 3);
+        let mut stages: Vec<u8> = Vec::new();
+        for _ in 0..nent {
+            stages.push(*self.rng.pick(&[ST_F, ST_F, ST_C, ST_V]));
+        }
+        for (k, st) in stages.iter().enumerate() {
+            // the first entry touches every texture, later ones a random subset; each texture
+            // is accessed 1..3 times with (usually) different builtins
+            let mut must: Vec<usize> = Vec::new();
+            for &t in &texs {
+                if k == 0 || self.rng.pct(50) {
+                    for _ in 0..self.rng.range(1, 3) {
+                        must.push(t);
+                    }
+                }
+            }
+            match *st {
+                ST_V => self.gen_vertex_entry(&cfg, &[], &must),
+                ST_F => self.gen_fragment_entry(&cfg, &[], &must),
+                _ => self.gen_compute_entry(&cfg, &[], &must),
+            }
+        }
+        self.assemble()
+    }
+}
+
+// ---------------------------------------------------------------------------------------------
+// `unicode` profile: comments / blankspace / line endings with arbitrary Unicode
+// ---------------------------------------------------------------------------------------------
+
+const C_TEXT: &[&str] = &[
+    "TODO", "fix me", "see §4.2", "x = y", "return;", "fn main() {}", "struct S { a: f32 }",
+    "@group(0) @binding(0) var<uniform> u: f32;", "@vertex", "@compute @workgroup_size(64)",
+    "100%", "a < b && c > d", "override x: f32;", "const N = 4;", "entry point", "binding", "",
+    " ", "   ", "-----", "=====", "#include \"common.wgsl\"", "#define FOO 1", "${name}", "{{tpl}}",
+];
+
+const C_SPECIAL: &[(&str, &str)] = &[
+    ("\"", "comment_quote"), ("'", "comment_quote"), ("\"\"\"", "comment_quote"),
+    ("r#\"", "comment_quote"), ("\"#", "comment_quote"), ("\\", "comment_backslash"),
+    ("\\n", "comment_backslash"), ("\\\"", "comment_backslash"), ("\\u{1F600}", "comment_backslash"),
+    ("\\\\", "comment_backslash"), ("{", "comment_braces"), ("}", "comment_braces"),
+    ("{}", "comment_braces"), ("{{", "comment_braces"), ("}}", "comment_braces"),
+    ("{0}", "comment_braces"), ("`", "comment_misc_ascii"), ("$", "comment_misc_ascii"),
+    ("#", "comment_misc_ascii"), ("%s", "comment_misc_ascii"), ("\t", "comment_tab"),
+    ("*", "comment_star_slash"), ("/", "comment_star_slash"), ("*/", "comment_star_slash"),
+    ("/*", "comment_star_slash"), ("//", "comment_star_slash"), ("**/", "comment_star_slash"),
+    ("😀", "comment_nonbmp"), ("🧪🦀", "comment_nonbmp"), ("𝔘𝔫𝔦", "comment_nonbmp"),
+    ("\u{10FFFF}", "comment_nonbmp"), ("\u{1F468}\u{200D}\u{1F469}\u{200D}\u{1F467}", "comment_nonbmp"),
+    ("e\u{301}\u{327}", "comment_combining"), ("\u{0300}\u{0301}", "comment_combining"),
+    ("\u{FEFF}", "comment_bom"), ("\u{200B}", "comment_format_chars"), ("\u{200D}", "comment_format_chars"),
+    ("\u{202E}", "comment_format_chars"), ("\u{200E}", "comment_format_chars"), ("\u{A0}", "comment_format_chars"),
+    ("\u{E000}", "comment_private_use"), ("\u{FFFF}", "comment_noncharacter"), ("\u{FFFD}", "comment_noncharacter"),
+    ("日本語のコメント", "comment_cjk"), ("العربية", "comment_rtl"), ("עברית", "comment_rtl"),
+    ("\0", "comment_nul"), ("\u{1}", "comment_control"), ("\u{7}", "comment_control"),
+    ("\u{8}", "comment_control"), ("\u{1B}[31m", "comment_control"), ("\u{1F}", "comment_control"),
+    ("\u{7F}", "comment_control"), ("\u{80}", "comment_control"), ("\u{9F}", "comment_control"),
+];
+
+/// characters that terminate a line comment in naga's lexer (also all blankspace)
+const LINE_BREAKS: &[&str] = &["\n", "\r\n", "\r", "\u{0B}", "\u{0C}", "\u{85}", "\u{2028}", "\u{2029}"];
+
+impl Gen {
+    fn comment_text(&mut self, block: bool) -> String {
+        let n = self.rng.range(0, 7);
+        let mut s = String::new();
+        for _ in 0..n {
+            match self.rng.below(10) {
+                0..=3 => {
+                    let t = *self.rng.pick(C_TEXT);
+                    if t.contains('{') || t.contains(';') {
+                        self.feat("comment_code_like");
+                    }
+                    s.push_str(t);
+                }
+                4 => {
+                    let w: &str = *self.rng.pick(UNI_WORDS);
+                    s.push_str(w);
+                }
+                5 if block => {
+                    // line breaks inside block comments
+                    let b = *self.rng.pick(LINE_BREAKS);
+                    self.feat(match b {
+                        "\n" | "\r\n" | "\r" => "comment_multiline_block",
+                        "\u{2028}" | "\u{2029}" => "comment_ls_ps",
+                        _ => "comment_exotic_linebreak_in_block",
+                    });
+                    s.push_str(b);
+                }
+                _ => {
+                    let (t, f) = *self.rng.pick(C_SPECIAL);
+                    self.feat(f);
+                    s.push_str(t);
+                }
+            }
+            if self.rng.pct(60) {
+                s.push(' ');
+            }
+        }
+        if block {
+            s = s.replace("*/", "* /").replace("/*", "/ *");
+            // second pass: the first replacement can create a new "/*" out of "/*/"
+            s = s.replace("*/", "* /").replace("/*", "/ *");
+        } else {
+            for b in ["\n", "\r", "\u{0B}", "\u{0C}", "\u{85}", "\u{2028}", "\u{2029}"] {
+                s = s.replace(b, " ");
+            }
+            if self.rng.pct(8) {
+                self.feat("comment_trailing_backslash");
+                s.push('\\');
+            }
+        }
+        s
+    }
+
+    fn block_comment(&mut self) -> String {
+        let a = self.comment_text(true);
+        if self.rng.pct(20) {
+            self.feat("comment_nested_block");
+            let b = self.comment_text(true);
+            let c = self.comment_text(true);
+            format!("/* {} /* {} */ {} */", a, b, c)
+        } else if self.rng.pct(10) {
+            "/**/".to_string()
+        } else {
+            format!("/* {} */", a)
+        }
+    }
+
+    fn unicode_decorate(&mut self, base: &str) -> String {
+        let style = self.rng.weighted(&[30, 20, 12, 38]);
+        self.feat(match style {
+            0 => "line_ending_lf",
+            1 => "line_ending_crlf",
+            2 => "line_ending_cr",
+            _ => "line_ending_mixed",
+        });
+        let mut out = String::new();
+        let eol = |g: &mut Gen| -> &'static str {
+            match style {
+                0 => "\n",
+                1 => "\r\n",
+                2 => "\r",
+                _ => {
+                    if g.rng.pct(25) {
+                        g.feat("line_ending_exotic");
+                        *g.rng.pick(&["\u{0B}", "\u{0C}", "\u{85}", "\u{2028}", "\u{2029}"])
+                    } else {
+                        *g.rng.pick(&["\n", "\r\n", "\r"])
+                    }
+                }
+            }
+        };
+        if self.rng.pct(30) {
+            // file starts with a comment
+            let c = if self.rng.pct(50) { format!("//{}", self.comment_text(false)) } else { self.block_comment() };
+            out.push_str(&c);
+            out.push_str(eol(self));
+        }
+        for line in base.split('\n') {
+            if self.rng.pct(14) {
+                let indent: String = line.chars().take_while(|c| *c == ' ').collect();
+                out.push_str(&indent);
+                if self.rng.pct(55) {
+                    self.feat("line_comment");
+                    out.push_str("//");
+                    let t = self.comment_text(false);
+                    out.push_str(&t);
+                } else {
+                    self.feat("block_comment");
+                    let c = self.block_comment();
+                    out.push_str(&c);
+                }
+                out.push_str(eol(self));
+            }
+            // inline decoration of the code line itself
+            let mut first_non_space = false;
+            for ch in line.chars() {
+                if ch != ' ' {
+                    first_non_space = true;
+                    out.push(ch);
+                    continue;
+                }
+                if first_non_space && self.rng.pct(3) {
+                    self.feat("inline_block_comment");
+                    out.push(' ');
+                    let c = self.block_comment();
+                    out.push_str(&c);
+                    out.push(' ');
+                } else if self.rng.pct(3) {
+                    self.feat("blankspace_exotic");
+                    let b: &str = *self.rng.pick(&["\t", "\u{200E}", "\u{200F}", " \t ", "\u{0B}", "\u{0C}", "\u{85}", "\u{2028}", "\u{2029}", "\r", "\n"]);
+                    out.push_str(b);
+                } else {
+                    out.push(' ');
+                }
+            }
+            if self.rng.pct(8) {
+                self.feat("trailing_line_comment");
+                out.push_str(" //");
+                let t = self.comment_text(false);
+                out.push_str(&t);
+            }
+            out.push_str(eol(self));
+        }
+        match self.rng.below(5) {
+            0 => {
+                self.feat("comment_at_eof_no_newline");
+                out.push_str("//");
+                let t = self.comment_text(false);
+                out.push_str(&t);
+            }
+            1 => {
+                self.feat("block_comment_at_eof");
+                let c = self.block_comment();
+                out.push_str(&c);
+            }
+            _ => {}
+        }
+        out
+    }
+}
+
+// ---------------------------------------------------------------------------------------------
+// Deterministic families
+// ---------------------------------------------------------------------------------------------
+
+/// `f0` reads a storage and a uniform binding; `f{i+1}` calls `f{i}` twice (once as a call
+/// statement / `let`, once inside an expression when `value_returning`); a compute entry calls
+/// `f{depth-1}`. Number of call paths is `2^depth`.
+pub fn chain(depth: usize, value_returning: bool) -> String {
+    let mut s = String::new();
+    s.push_str("@group(0) @binding(0) var<storage, read_write> buf: array<f32>;\n");
+    s.push_str("@group(0) @binding(1) var<uniform> uni: vec4<f32>;\n\n");
+    if depth == 0 {
+        s.push_str("@compute @workgroup_size(1)\nfn main() {\n    buf[1] = buf[0] + uni.x;\n}\n");
+        return s;
+    }
+    if value_returning {
+        s.push_str("fn hf0() -> f32 {\n    return buf[0] + uni.x;\n}\n\n");
+        for i in 1..depth {
+            s.push_str(&format!(
+                "fn hf{}() -> f32 {{\n    let a = hf{}();\n    return a + hf{}() * 0.5;\n}}\n\n",
+                i,
+                i - 1,
+                i - 1
+            ));
+        }
+        s.push_str(&format!("@compute @workgroup_size(1)\nfn main() {{\n    buf[1] = hf{}();\n}}\n", depth - 1));
+    } else {
+        s.push_str("fn hf0() {\n    buf[0] = buf[0] + uni.x;\n}\n\n");
+        for i in 1..depth {
+            s.push_str(&format!("fn hf{}() {{\n    hf{}();\n    if (uni.y > 0.0) {{\n        hf{}();\n    }}\n}}\n\n", i, i - 1, i - 1));
+        }
+        s.push_str(&format!("@compute @workgroup_size(1)\nfn main() {{\n    hf{}();\n}}\n", depth - 1));
+    }
+    s
+}
+
+/// Level `i` has two functions `a_i`, `b_i`, each calling both `a_{i-1}` and `b_{i-1}`;
+/// the entry calls `a_top` and `b_top`. `depth` = number of levels (>= 1).
+pub fn diamond(depth: usize) -> String {
+    let depth = depth.max(1);
+    let mut s = String::new();
+    s.push_str("@group(0) @binding(0) var<storage, read> src: array<f32>;\n");
+    s.push_str("@group(0) @binding(1) var<uniform> uni: vec4<f32>;\n");
+    s.push_str("@group(1) @binding(0) var<storage, read_write> dst: array<f32>;\n\n");
+    s.push_str("fn a_0() -> f32 {\n    return src[0];\n}\n\n");
+    s.push_str("fn b_0() -> f32 {\n    return uni.x;\n}\n\n");
+    for i in 1..depth {
+        s.push_str(&format!("fn a_{}() -> f32 {{\n    return a_{}() + b_{}();\n}}\n\n", i, i - 1, i - 1));
+        s.push_str(&format!(
+            "fn b_{}() -> f32 {{\n    let x = a_{}();\n    let y = b_{}();\n    return x * y;\n}}\n\n",
+            i,
+            i - 1,
+            i - 1
+        ));
+    }
+    s.push_str(&format!(
+        "@compute @workgroup_size(1)\nfn main() {{\n    dst[0] = a_{}();\n    dst[1] = b_{}();\n}}\n",
+        depth - 1,
+        depth - 1
+    ));
+    s
+}
+
+/// `width` helpers each calling one shared helper that touches a binding; the entry calls all.
+pub fn fanout(width: usize) -> String {
+    let mut s = String::new();
+    s.push_str("@group(0) @binding(0) var<uniform> uni: vec4<f32>;\n");
+    s.push_str("@group(0) @binding(1) var<storage, read_write> dst: array<f32>;\n\n");
+    s.push_str("fn shared_helper() -> f32 {\n    return uni.x;\n}\n\n");
+    for k in 0..width {
+        s.push_str(&format!("fn h_{}() -> f32 {{\n    return shared_helper() + {}.0;\n}}\n\n", k, k));
+    }
+    s.push_str("@compute @workgroup_size(1)\nfn main() {\n    var acc: f32 = 0.0;\n");
+    for k in 0..width {
+        s.push_str(&format!("    acc += h_{}();\n", k));
+    }
+    s.push_str("    dst[0] = acc;\n}\n");
+    s
+}
+
+/// `struct S0 { a: f32 }`, `struct S{i+1} { x: S{i}, y: S{i} }`, a storage buffer of `S{depth}`.
+/// Both members have the same nested type: visiting the type tree without memoisation is
+/// exponential. Byte size is `4 * 2^depth` (keep `depth <= 28`).
+pub fn nested_structs(depth: usize) -> String {
+    let mut s = String::new();
+    s.push_str("struct S0 {\n    a: f32,\n}\n\n");
+    for i in 1..=depth {
+        s.push_str(&format!("struct S{} {{\n    x: S{},\n    y: S{},\n}}\n\n", i, i - 1, i - 1));
+    }
+    s.push_str(&format!("@group(0) @binding(0) var<storage, read_write> data: S{};\n\n", depth));
+    let mut path = String::from("data");
+    for i in 0..depth {
+        path.push_str(if i % 2 == 0 { ".x" } else { ".y" });
+    }
+    path.push_str(".a");
+    s.push_str(&format!("@compute @workgroup_size(1)\nfn main() {{\n    {} = {} + 1.0;\n}}\n", path, path));
+    s
+}
